@@ -1,335 +1,1660 @@
 """C19 -- pipe splitting, breaking and skeletonization keep what they promise to keep."""
 import ast
+import collections
+import copy
+import operator
 
 import sympy as sp
 
 from ..src import walk, calls, call_name, last_attr, dotted, norm, loc, const, AnchorError, ExtractError, parent, unparse
-from ..effects import writes
+from ..peval import Unknown
+from ..symx import SymExec, Opaque, rat
 
 LINK = "wntr/morph/link.py"
 SKEL = "wntr/morph/skel.py"
 MODEL = "wntr/network/model.py"
 
-EXPLANATION = (
-    "Static analysis of wntr/morph/link.py::_split_or_break_pipe / reverse_link and wntr/morph/skel.py::_Skeletonize: (R-C19-1) formula "
-    "extraction: in both placement branches new-pipe length + retained length = original length identically, the part that keeps the start "
-    "node gets L*s, elevation and coordinates are the linear interpolation at s (reservoir ends take the other end's elevation; with "
-    "vertices the interpolation runs on the crossing segment), and 0 <= s <= 1 is enforced before any mutation; (R-C19-2) the add_pipe call "
-    "passes the old pipe's diameter, roughness and minor loss in the parameter positions of those names and a constant False check valve; "
-    "(R-C19-3) the old pipe is re-wired through the usage-maintaining setters, SPLIT uses one junction for both pipes and BREAK two, name "
-    "clashes are refused before mutation; (R-C19-4) with return_copy every store and mutating call goes through the deep copy, the caller's "
-    "model is only read; (R-C19-5) every remove_link in skeletonize is guarded by isinstance Pipe, diameter <= threshold and the exclusion "
-    "list for that very pipe, every remove_node removes a junction from junction_name_list that is not excluded, exclusion lists contain the "
-    "requires() of every control, and the junction that receives demands is a Junction; (R-C19-6) demand entries and the skeleton map of the "
-    "removed junction are moved to one and the same retained junction before remove_node, the initial map is {n: [n]}; (R-C19-7) the duration "
-    "changed for the internal simulation is restored. Decides these clauses, not hydraulic equivalence.")
-RULE_TEXT = "one instance = one formula, one argument position, one mutation site, one removal site; distinct = distinct constructs"
-ASSUMPTIONS = [
-    "copy.deepcopy of a WaterNetworkModel shares nothing mutable with the original (pickling hooks are checked under C10)",
-    "demand entries are moved as objects (pattern registry usage records of the retained junction are not re-registered; inventoried, outside the statement)",
-]
+
+# ======================================================================================================================
+# A small interpreter for the Python subset the morph functions are written in.  It walks the (normalised) AST of /repo's
+# functions over MOCK model objects; numbers may be SV values (a sympy expression together with a sample value: branches are
+# decided by the sample, results are compared as identities).  Nothing of the repository is imported or executed: the only
+# native callables ever applied are the whitelisted builtins below, methods of plain containers and the mock's own methods.
+# ======================================================================================================================
+class PyErr(Exception):
+    """an exception raised BY THE ANALYSED CODE (explicit raise or a run-time error of an operation)."""
+
+    def __init__(self, kind, msg="", lineno=0):
+        Exception.__init__(self, "%s: %s" % (kind, msg))
+        self.kind, self.msg, self.lineno = kind, msg, lineno
 
 
-def S(expr, env):
-    """tiny AST -> sympy translation for arithmetic over names / attributes (attributes and subscripts become symbols)."""
-    if isinstance(expr, ast.Constant) and isinstance(expr.value, (int, float)):
-        return sp.nsimplify(expr.value)
-    if isinstance(expr, ast.Name):
-        if expr.id in env:
-            return env[expr.id]
-        return sp.Symbol(expr.id)
-    if isinstance(expr, (ast.Attribute, ast.Subscript)):
-        t = unparse(expr)
-        return env.get(t, sp.Symbol(t))
-    if isinstance(expr, ast.BinOp):
-        a, b = S(expr.left, env), S(expr.right, env)
-        if isinstance(expr.op, ast.Add):
-            return a + b
-        if isinstance(expr.op, ast.Sub):
-            return a - b
-        if isinstance(expr.op, ast.Mult):
-            return a * b
-        if isinstance(expr.op, ast.Div):
-            return a / b
-        if isinstance(expr.op, ast.Pow):
-            return a ** b
-    if isinstance(expr, ast.UnaryOp) and isinstance(expr.op, ast.USub):
-        return -S(expr.operand, env)
-    raise ExtractError("cannot translate %s" % unparse(expr))
+class _Return(Exception):
+    def __init__(self, v):
+        self.v = v
 
 
-def local_env(stmts, upto=None):
-    """straight-line reaching definitions name -> sympy for simple assignments in a statement list."""
-    env = {}
-    for s in stmts:
-        if upto is not None and s.lineno >= upto:
-            break
-        if isinstance(s, ast.Assign) and len(s.targets) == 1 and isinstance(s.targets[0], ast.Name):
-            try:
-                env[s.targets[0].id] = S(s.value, env)
-            except ExtractError:
-                env.pop(s.targets[0].id, None)
-    return env
+class _Break(Exception):
+    pass
 
 
-def params_of(fn):
-    return [a.arg for a in fn.args.args if a.arg != "self"]
+class _Continue(Exception):
+    pass
 
 
-def bind_args(call, names):
-    out = {}
-    for i, a in enumerate(call.args):
-        if i < len(names):
-            out[names[i]] = a
-    for k in call.keywords:
-        if k.arg:
-            out[k.arg] = k.value
+class SV(object):
+    """number with a symbolic twin: e (sympy expression) and v (float sample).  Tests use v, identities use e."""
+    __slots__ = ("e", "v")
+
+    def __init__(self, e, v):
+        self.e, self.v = e, float(v)
+
+    @staticmethod
+    def lift(x):
+        if isinstance(x, SV):
+            return x
+        if isinstance(x, bool):
+            return SV(sp.Integer(int(x)), int(x))
+        if isinstance(x, (int, float)):
+            return SV(rat(x), x)
+        return None
+
+    def _bin(self, o, f, swap=False):
+        o = SV.lift(o)
+        if o is None:
+            return NotImplemented
+        a, b = (o, self) if swap else (self, o)
+        return SV(f(a.e, b.e), f(a.v, b.v))
+
+    def __add__(self, o): return self._bin(o, operator.add)
+    def __radd__(self, o): return self._bin(o, operator.add, True)
+    def __sub__(self, o): return self._bin(o, operator.sub)
+    def __rsub__(self, o): return self._bin(o, operator.sub, True)
+    def __mul__(self, o): return self._bin(o, operator.mul)
+    def __rmul__(self, o): return self._bin(o, operator.mul, True)
+    def __truediv__(self, o): return self._bin(o, operator.truediv)
+    def __rtruediv__(self, o): return self._bin(o, operator.truediv, True)
+    def __pow__(self, o): return self._bin(o, operator.pow)
+    def __rpow__(self, o): return self._bin(o, operator.pow, True)
+    def __neg__(self): return SV(-self.e, -self.v)
+    def __pos__(self): return self
+    def __abs__(self): return SV(sp.Abs(self.e), abs(self.v))
+    def __float__(self): return self.v
+    def __bool__(self): return bool(self.v)
+    def __hash__(self): return hash(self.v)
+
+    def _cmp(self, o, f):
+        o = SV.lift(o)
+        if o is None:
+            return NotImplemented
+        return f(self.v, o.v)
+
+    def __lt__(self, o): return self._cmp(o, operator.lt)
+    def __le__(self, o): return self._cmp(o, operator.le)
+    def __gt__(self, o): return self._cmp(o, operator.gt)
+    def __ge__(self, o): return self._cmp(o, operator.ge)
+    def __eq__(self, o): return self._cmp(o, operator.eq)
+    def __ne__(self, o):
+        r = self._cmp(o, operator.ne)
+        return r
+    def __repr__(self): return "SV(%s ~ %g)" % (self.e, self.v)
+    def __str__(self): return str(self.v)
+    def __format__(self, spec): return format(self.v, spec)
+
+
+class Ext(object):
+    """a name imported from outside the analysed module (module, class, function), known by its dotted name only."""
+
+    def __init__(self, dotted):
+        self.dotted = dotted
+
+    @property
+    def last(self):
+        return self.dotted.split(".")[-1]
+
+    def __repr__(self):
+        return "<ext %s>" % self.dotted
+
+    def __eq__(self, o):
+        return isinstance(o, Ext) and o.dotted == self.dotted
+
+    def __hash__(self):
+        return hash(self.dotted)
+
+
+class Sink(object):
+    """logger-like object: every attribute is a Sink, every call returns None."""
+
+    def __getattr__(self, a):
+        return self
+
+    def __call__(self, *a, **k):
+        return None
+
+
+class ExcInst(object):
+    def __init__(self, kind, args):
+        self.kind, self.args = kind, tuple(args)
+
+    def __str__(self):
+        return str(self.args[0]) if len(self.args) == 1 else str(self.args)
+
+
+class ExcClass(object):
+    def __init__(self, kind):
+        self.kind = kind
+
+    def __call__(self, *args):
+        return ExcInst(self.kind, args)
+
+
+EXC_NAMES = ("Exception", "ValueError", "RuntimeError", "KeyError", "TypeError", "IndexError", "AttributeError", "AssertionError", "NotImplementedError",
+             "ZeroDivisionError", "UnboundLocalError", "NameError", "StopIteration", "ArithmeticError", "LookupError", "OSError", "IOError", "DeprecationWarning",
+             "UserWarning", "Warning")
+EXC_PARENTS = {"KeyError": "LookupError", "IndexError": "LookupError", "ZeroDivisionError": "ArithmeticError", "UnboundLocalError": "NameError",
+               "NotImplementedError": "RuntimeError", "IOError": "OSError"}
+NATIVE_ERRORS = (TypeError, KeyError, IndexError, ZeroDivisionError, ValueError, AttributeError, StopIteration, OverflowError)
+
+
+class Frame(object):
+    def __init__(self, env, locals_, parent=None):
+        self.env, self.locals, self.parent = env, locals_, parent
+
+
+class FuncVal(object):
+    """a function of the analysed module (def or lambda) closed over its defining frame; calling it interprets its body."""
+
+    def __init__(self, node, interp, closure=None):
+        self.node, self.interp, self.closure = node, interp, closure
+        self.name = getattr(node, "name", "<lambda>")
+
+    def __call__(self, *args, **kwargs):
+        return self.interp.call_function(self, list(args), dict(kwargs))
+
+
+def _stored_in(fn):
+    """names a function binds (parameters, assignment / loop / with / except / import targets, nested defs): its locals."""
+    out = set()
+    a = fn.args
+    for x in a.posonlyargs + a.args + a.kwonlyargs + [y for y in (a.vararg, a.kwarg) if y is not None]:
+        out.add(x.arg)
+    body = fn.body if isinstance(fn.body, list) else [fn.body]
+    todo = list(body)
+    while todo:
+        n = todo.pop()
+        if isinstance(n, (ast.FunctionDef, ast.AsyncFunctionDef, ast.ClassDef)):
+            out.add(n.name)
+            continue
+        if isinstance(n, (ast.Lambda, ast.ListComp, ast.SetComp, ast.DictComp, ast.GeneratorExp)):
+            continue
+        if isinstance(n, ast.Name) and isinstance(n.ctx, (ast.Store, ast.Del)):
+            out.add(n.id)
+        elif isinstance(n, ast.ExceptHandler) and n.name:
+            out.add(n.name)
+        elif isinstance(n, (ast.Import, ast.ImportFrom)):
+            for al in n.names:
+                out.add((al.asname or al.name).split(".")[0])
+        todo.extend(ast.iter_child_nodes(n))
     return out
 
 
-def mutations(fn_or_stmts):
-    """(lineno, description) of statements that change a model: attribute stores and calls of add_*/remove_*/clear/append/extend."""
-    out = []
-    body = fn_or_stmts if isinstance(fn_or_stmts, list) else [fn_or_stmts]
-    mod = ast.Module(body=body, type_ignores=[])
-    for recv, attr, ae, via, node in writes(mod):
-        out.append((node.lineno, "%s.%s (%s)" % (unparse(recv), attr, via), recv, node))
-    for c in calls(mod):
-        nm = last_attr(c) or ""
-        if nm.startswith(("add_", "remove_")) and isinstance(c.func, ast.Attribute):
-            out.append((c.lineno, "%s()" % unparse(c.func), c.func.value, c))
-    return sorted(out, key=lambda x: x[0])
+class Interp(object):
+    """interprets functions of ONE module of the analysed tree.  `world` supplies the mocks: world.external(dotted, args, kwargs),
+    world.isinstance(value, classname), world.getattr / world.setattr for mock objects."""
+    MAX_STEPS = 400000
+
+    def __init__(self, repo, rel, world):
+        self.repo, self.rel, self.world = repo, rel, world
+        self.tree = repo.tree(rel)
+        self.steps = 0
+        self.modenv = {}
+        self.modpending = {}
+        self._cur_exc = None
+        for n in self.tree.body:
+            if isinstance(n, ast.Import):
+                for al in n.names:
+                    if al.asname:
+                        self.modenv[al.asname] = Ext(al.name)
+                    else:
+                        self.modenv[al.name.split(".")[0]] = Ext(al.name.split(".")[0])
+            elif isinstance(n, ast.ImportFrom):
+                for al in n.names:
+                    self.modenv[al.asname or al.name] = Ext(((n.module or "") + "." + al.name).lstrip("."))
+            elif isinstance(n, ast.FunctionDef):
+                self.modenv[n.name] = FuncVal(n, self)
+            elif isinstance(n, ast.Assign) and len(n.targets) == 1 and isinstance(n.targets[0], ast.Name):
+                self.modpending[n.targets[0].id] = n.value
+        self.modframe = Frame(self.modenv, set(), None)
+        self.builtins = {
+            "len": len, "range": range, "zip": zip, "sum": sum, "abs": abs, "min": min, "max": max, "int": int, "str": str, "bool": bool, "list": list,
+            "tuple": tuple, "dict": dict, "set": set, "sorted": sorted, "reversed": reversed, "enumerate": enumerate, "any": any, "all": all, "round": round,
+            "repr": repr, "map": lambda f, *its: list(map(f, *its)), "filter": lambda f, it: list(filter(f, it)), "print": lambda *a, **k: None,
+            "float": lambda x=0.0: x if isinstance(x, SV) else float(x), "True": True, "False": False, "None": None, "__name__": rel[:-3].replace("/", "."),
+            "isinstance": self._isinstance, "divmod": divmod, "pow": pow, "iter": iter, "next": next, "object": object,
+        }
+        for k in EXC_NAMES:
+            self.builtins[k] = ExcClass(k)
+
+    # ------------------------------------------------------------------------------------------------ helpers
+    def unsupported(self, what, n=None):
+        raise Unknown("interpreter: %s%s" % (what, " (%s line %s)" % (self.rel, n.lineno) if n is not None and hasattr(n, "lineno") else ""))
+
+    def tick(self, n=None):
+        self.steps += 1
+        if self.steps > self.MAX_STEPS:
+            self.unsupported("step limit reached", n)
+
+    def native(self, f, n, *args, **kwargs):
+        try:
+            return f(*args, **kwargs)
+        except NATIVE_ERRORS as e:
+            raise PyErr(type(e).__name__, str(e), getattr(n, "lineno", 0))
+
+    def _isinstance(self, v, c):
+        if isinstance(c, (tuple, list)):
+            return any(self._isinstance(v, x) for x in c)
+        if isinstance(c, type):
+            if isinstance(v, SV):
+                return c in (float, object) or (c is int and False)
+            return isinstance(v, c)
+        if isinstance(c, Ext):
+            return self.world.isinstance(v, c.last)
+        if isinstance(c, ExcClass):
+            return isinstance(v, ExcInst) and self.exc_matches(v.kind, c.kind)
+        self.unsupported("isinstance against %r" % (c,))
+
+    def exc_matches(self, kind, want):
+        if want in ("Exception", "BaseException"):
+            return True
+        k = kind
+        while k is not None:
+            if k == want:
+                return True
+            k = EXC_PARENTS.get(k)
+        return False
+
+    def lookup(self, name, fr, n=None):
+        f = fr
+        while f is not None:
+            if name in f.env:
+                return f.env[name]
+            if name in f.locals and f is not self.modframe:
+                raise PyErr("UnboundLocalError", "local variable %r referenced before assignment" % name, getattr(n, "lineno", 0))
+            f = f.parent
+        if name in self.modenv:
+            return self.modenv[name]
+        if name in self.modpending:
+            expr = self.modpending.pop(name)
+            self.modenv[name] = self.ev(expr, self.modframe)
+            return self.modenv[name]
+        if name in self.builtins:
+            return self.builtins[name]
+        raise PyErr("NameError", "name %r is not defined" % name, getattr(n, "lineno", 0))
+
+    # -------------------------------------------------------------------------------------------- expressions
+    def ev(self, n, fr):
+        self.tick(n)
+        m = getattr(self, "e_" + type(n).__name__, None)
+        if m is None:
+            self.unsupported("expression %s" % type(n).__name__, n)
+        return m(n, fr)
+
+    def e_Constant(self, n, fr):
+        return n.value
+
+    def e_Name(self, n, fr):
+        return self.lookup(n.id, fr, n)
+
+    def e_Attribute(self, n, fr):
+        base = self.ev(n.value, fr)
+        return self.getattr(base, n.attr, n)
+
+    def getattr(self, base, attr, n=None):
+        if isinstance(base, Ext):
+            if base.last == "LinkStatus":
+                return EnumTok("LinkStatus." + attr)
+            return Ext(base.dotted + "." + attr)
+        if isinstance(base, Sink):
+            return base
+        if isinstance(base, MObj):
+            return self.world.getattr(base, attr, n)
+        if isinstance(base, ExcInst):
+            if attr == "args":
+                return base.args
+            raise PyErr("AttributeError", attr, getattr(n, "lineno", 0))
+        if isinstance(base, (list, tuple, dict, str, set, frozenset)) and not attr.startswith("__"):
+            return self.native(getattr, n, base, attr)
+        if isinstance(base, SV) and attr in ("real",):
+            return base
+        raise PyErr("AttributeError", "%s object has no attribute %r" % (type(base).__name__, attr), getattr(n, "lineno", 0))
+
+    def e_Subscript(self, n, fr):
+        base = self.ev(n.value, fr)
+        key = self.ev(n.slice, fr)
+        if isinstance(base, (list, tuple, dict, str)):
+            if isinstance(key, SV):
+                key = key.v if not float(key.v).is_integer() else int(key.v)
+            return self.native(operator.getitem, n, base, key)
+        if isinstance(base, MObj):
+            return self.world.getitem(base, key, n)
+        self.unsupported("subscript of %s" % type(base).__name__, n)
+
+    def e_Slice(self, n, fr):
+        return slice(*[self.ev(x, fr) if x is not None else None for x in (n.lower, n.upper, n.step)])
+
+    def _elts(self, elts, fr):
+        out = []
+        for e in elts:
+            if isinstance(e, ast.Starred):
+                out.extend(self.iterate(self.ev(e.value, fr), e))
+            else:
+                out.append(self.ev(e, fr))
+        return out
+
+    def e_List(self, n, fr):
+        return self._elts(n.elts, fr)
+
+    def e_Tuple(self, n, fr):
+        return tuple(self._elts(n.elts, fr))
+
+    def e_Set(self, n, fr):
+        return set(self._elts(n.elts, fr))
+
+    def e_Dict(self, n, fr):
+        out = {}
+        for k, v in zip(n.keys, n.values):
+            if k is None:
+                out.update(self.ev(v, fr))
+            else:
+                out[self.ev(k, fr)] = self.ev(v, fr)
+        return out
+
+    def e_JoinedStr(self, n, fr):
+        return "".join(self.ev(v, fr) for v in n.values)
+
+    def e_FormattedValue(self, n, fr):
+        v = self.ev(n.value, fr)
+        if n.conversion == ord("r"):
+            v = repr(v)
+        elif n.conversion == ord("s"):
+            v = str(v)
+        spec = self.ev(n.format_spec, fr) if n.format_spec is not None else ""
+        return self.native(format, n, v, spec)
+
+    def truth(self, v):
+        if isinstance(v, MObj):
+            return self.world.truth(v)
+        return bool(v)
+
+    def e_UnaryOp(self, n, fr):
+        v = self.ev(n.operand, fr)
+        if isinstance(n.op, ast.Not):
+            return not self.truth(v)
+        if isinstance(n.op, ast.USub):
+            return self.native(operator.neg, n, v)
+        if isinstance(n.op, ast.UAdd):
+            return self.native(operator.pos, n, v)
+        self.unsupported("unary operator", n)
+
+    BINOPS = {ast.Add: operator.add, ast.Sub: operator.sub, ast.Mult: operator.mul, ast.Div: operator.truediv, ast.Pow: operator.pow, ast.Mod: operator.mod,
+              ast.FloorDiv: operator.floordiv}
+
+    def binop(self, op, a, b, n):
+        f = self.BINOPS.get(type(op))
+        if f is None:
+            self.unsupported("binary operator %s" % type(op).__name__, n)
+        if isinstance(a, (MObj, Ext, Sink, FuncVal)) or isinstance(b, (MObj, Ext, Sink, FuncVal)):
+            raise PyErr("TypeError", "unsupported operand", getattr(n, "lineno", 0))
+        if isinstance(op, ast.Pow) and not isinstance(a, SV) and not isinstance(b, SV) and isinstance(a, (int, float)) and a < 0 and isinstance(b, float) and not b.is_integer():
+            raise PyErr("ValueError", "negative number to a fractional power", getattr(n, "lineno", 0))
+        return self.native(f, n, a, b)
+
+    def e_BinOp(self, n, fr):
+        return self.binop(n.op, self.ev(n.left, fr), self.ev(n.right, fr), n)
+
+    def e_BoolOp(self, n, fr):
+        isand = isinstance(n.op, ast.And)
+        v = None
+        for x in n.values:
+            v = self.ev(x, fr)
+            t = self.truth(v)
+            if isand and not t:
+                return v
+            if not isand and t:
+                return v
+        return v
+
+    def e_IfExp(self, n, fr):
+        return self.ev(n.body, fr) if self.truth(self.ev(n.test, fr)) else self.ev(n.orelse, fr)
+
+    def compare(self, op, a, b, n):
+        if isinstance(op, ast.Is):
+            return a is b or (type(a) in (bool, int, str, type(None)) and type(a) is type(b) and a == b)
+        if isinstance(op, ast.IsNot):
+            return not self.compare(ast.Is(), a, b, n)
+        if isinstance(op, ast.In):
+            if isinstance(b, MObj):
+                return self.world.contains(b, a, n)
+            return self.native(lambda: any(self.equal(a, x) for x in b) if not isinstance(b, (dict, set, frozenset, str)) else a in b, n)
+        if isinstance(op, ast.NotIn):
+            return not self.compare(ast.In(), a, b, n)
+        if isinstance(op, ast.Eq):
+            return self.equal(a, b)
+        if isinstance(op, ast.NotEq):
+            return not self.equal(a, b)
+        f = {ast.Lt: operator.lt, ast.LtE: operator.le, ast.Gt: operator.gt, ast.GtE: operator.ge}[type(op)]
+        if isinstance(a, (MObj, Ext, type(None))) or isinstance(b, (MObj, Ext, type(None))):
+            raise PyErr("TypeError", "ordering comparison of %s and %s" % (type(a).__name__, type(b).__name__), getattr(n, "lineno", 0))
+        return self.native(f, n, a, b)
+
+    def equal(self, a, b):
+        if isinstance(a, MObj) or isinstance(b, MObj):
+            return a is b
+        try:
+            return bool(a == b)
+        except NATIVE_ERRORS:
+            return False
+
+    def e_Compare(self, n, fr):
+        left = self.ev(n.left, fr)
+        for op, rn in zip(n.ops, n.comparators):
+            right = self.ev(rn, fr)
+            if not self.compare(op, left, right, n):
+                return False
+            left = right
+        return True
+
+    def e_Lambda(self, n, fr):
+        return FuncVal(n, self, fr)
+
+    def _comp(self, gens, fr, emit):
+        def rec(i, f):
+            if i == len(gens):
+                emit(f)
+                return
+            g = gens[i]
+            for x in self.iterate(self.ev(g.iter, f), g.iter):
+                self.tick(g.iter)
+                self.assign(g.target, x, f, g.iter)
+                if all(self.truth(self.ev(c, f)) for c in g.ifs):
+                    rec(i + 1, f)
+        targets = set()
+        for g in gens:
+            targets |= {x.id for x in ast.walk(g.target) if isinstance(x, ast.Name)}
+        rec(0, Frame({}, targets, fr))
+
+    def e_ListComp(self, n, fr):
+        out = []
+        self._comp(n.generators, fr, lambda f: out.append(self.ev(n.elt, f)))
+        return out
+
+    e_GeneratorExp = e_ListComp
+
+    def e_SetComp(self, n, fr):
+        return set(self.e_ListComp(n, fr))
+
+    def e_DictComp(self, n, fr):
+        out = {}
+
+        def emit(f):
+            k = self.ev(n.key, f)
+            out[k] = self.ev(n.value, f)
+        self._comp(n.generators, fr, emit)
+        return out
+
+    def iterate(self, v, n=None):
+        if isinstance(v, MObj):
+            return self.world.iterate(v, n)
+        if isinstance(v, (list, tuple, dict, str, set, frozenset, range, zip, enumerate, reversed)) or hasattr(v, "__next__"):
+            return list(v)
+        if isinstance(v, type({}.keys())) or isinstance(v, type({}.values())) or isinstance(v, type({}.items())):
+            return list(v)
+        raise PyErr("TypeError", "%s object is not iterable" % type(v).__name__, getattr(n, "lineno", 0))
+
+    def e_Call(self, n, fr):
+        f = self.ev(n.func, fr)
+        args = []
+        for a in n.args:
+            if isinstance(a, ast.Starred):
+                args.extend(self.iterate(self.ev(a.value, fr), a))
+            else:
+                args.append(self.ev(a, fr))
+        kwargs = {}
+        for k in n.keywords:
+            if k.arg is None:
+                kwargs.update(self.ev(k.value, fr))
+            else:
+                kwargs[k.arg] = self.ev(k.value, fr)
+        return self.apply(f, args, kwargs, n)
+
+    def apply(self, f, args, kwargs, n=None):
+        if isinstance(f, FuncVal):
+            return self.call_function(f, args, kwargs, n)
+        if isinstance(f, Ext):
+            return self.world.external(f.dotted, args, kwargs, self, n)
+        if isinstance(f, Sink):
+            return None
+        if callable(f):
+            r = self.native(f, n, *args, **kwargs)
+            if isinstance(r, (zip, range, enumerate, reversed, map, filter)) or hasattr(r, "__next__"):
+                r = list(r) if not isinstance(r, range) else r
+            return r
+        raise PyErr("TypeError", "%s object is not callable" % type(f).__name__, getattr(n, "lineno", 0))
+
+    def call_function(self, fv, args, kwargs, n=None):
+        node = fv.node
+        a = node.args
+        env = {}
+        params = [x.arg for x in a.posonlyargs + a.args]
+        if len(args) > len(params) and a.vararg is None:
+            raise PyErr("TypeError", "%s() takes %d positional arguments but %d were given" % (fv.name, len(params), len(args)), getattr(n, "lineno", 0))
+        for p, v in zip(params, args):
+            env[p] = v
+        if a.vararg is not None:
+            env[a.vararg.arg] = tuple(args[len(params):])
+        kwonly = [x.arg for x in a.kwonlyargs]
+        extra = {}
+        for k, v in kwargs.items():
+            if k in env:
+                raise PyErr("TypeError", "%s() got multiple values for argument %r" % (fv.name, k), getattr(n, "lineno", 0))
+            if k in params or k in kwonly:
+                env[k] = v
+            elif a.kwarg is not None:
+                extra[k] = v
+            else:
+                raise PyErr("TypeError", "%s() got an unexpected keyword argument %r" % (fv.name, k), getattr(n, "lineno", 0))
+        if a.kwarg is not None:
+            env[a.kwarg.arg] = extra
+        defframe = fv.closure or self.modframe
+        for p, d in zip(params[len(params) - len(a.defaults):], a.defaults):
+            if p not in env:
+                env[p] = self.ev(d, defframe)
+        for p, d in zip(kwonly, a.kw_defaults):
+            if p not in env and d is not None:
+                env[p] = self.ev(d, defframe)
+        missing = [p for p in params + kwonly if p not in env]
+        if missing:
+            raise PyErr("TypeError", "%s() missing arguments %s" % (fv.name, missing), getattr(n, "lineno", 0))
+        fr = Frame(env, _stored_in(node), fv.closure or self.modframe)
+        if isinstance(node, ast.Lambda):
+            return self.ev(node.body, fr)
+        try:
+            self.block(node.body, fr)
+        except _Return as r:
+            return r.v
+        return None
+
+    # --------------------------------------------------------------------------------------------- statements
+    def block(self, stmts, fr):
+        for s in stmts:
+            self.stmt(s, fr)
+
+    def stmt(self, s, fr):
+        self.tick(s)
+        m = getattr(self, "s_" + type(s).__name__, None)
+        if m is None:
+            self.unsupported("statement %s" % type(s).__name__, s)
+        m(s, fr)
+
+    def s_Expr(self, s, fr):
+        if not isinstance(s.value, ast.Constant):
+            self.ev(s.value, fr)
+
+    def s_Pass(self, s, fr):
+        pass
+
+    def s_Assign(self, s, fr):
+        v = self.ev(s.value, fr)
+        for t in s.targets:
+            self.assign(t, v, fr, s)
+
+    def s_AnnAssign(self, s, fr):
+        if s.value is not None:
+            self.assign(s.target, self.ev(s.value, fr), fr, s)
+
+    def s_AugAssign(self, s, fr):
+        t = s.target
+        if isinstance(t, ast.Name):
+            cur = self.lookup(t.id, fr, s)
+            if isinstance(cur, list) and isinstance(s.op, ast.Add):
+                cur.extend(self.iterate(self.ev(s.value, fr), s))      # in-place, like list.__iadd__
+                return
+            self.assign(t, self.binop(s.op, cur, self.ev(s.value, fr), s), fr, s)
+            return
+        load = copy.copy(t)
+        load.ctx = ast.Load()
+        cur = self.ev(load, fr)
+        if isinstance(cur, list) and isinstance(s.op, ast.Add):
+            cur.extend(self.iterate(self.ev(s.value, fr), s))
+            return
+        self.assign(t, self.binop(s.op, cur, self.ev(s.value, fr), s), fr, s)
+
+    def assign(self, t, v, fr, s=None):
+        if isinstance(t, ast.Name):
+            fr.env[t.id] = v
+            return
+        if isinstance(t, (ast.Tuple, ast.List)):
+            vals = self.iterate(v, s)
+            star = [i for i, e in enumerate(t.elts) if isinstance(e, ast.Starred)]
+            if star:
+                i = star[0]
+                rest = len(t.elts) - i - 1
+                if len(vals) < len(t.elts) - 1:
+                    raise PyErr("ValueError", "not enough values to unpack", getattr(s, "lineno", 0))
+                parts = vals[:i] + [vals[i:len(vals) - rest]] + vals[len(vals) - rest:]
+                for e, x in zip(t.elts, parts):
+                    self.assign(e.value if isinstance(e, ast.Starred) else e, x, fr, s)
+                return
+            if len(vals) != len(t.elts):
+                raise PyErr("ValueError", "cannot unpack %d values into %d targets" % (len(vals), len(t.elts)), getattr(s, "lineno", 0))
+            for e, x in zip(t.elts, vals):
+                self.assign(e, x, fr, s)
+            return
+        if isinstance(t, ast.Attribute):
+            base = self.ev(t.value, fr)
+            if isinstance(base, MObj):
+                self.world.setattr(base, t.attr, v, s)
+                return
+            if isinstance(base, Sink):
+                return
+            raise PyErr("AttributeError", "cannot set %s on %s" % (t.attr, type(base).__name__), getattr(s, "lineno", 0))
+        if isinstance(t, ast.Subscript):
+            base = self.ev(t.value, fr)
+            key = self.ev(t.slice, fr)
+            if isinstance(base, (list, dict)):
+                self.native(operator.setitem, s, base, key, v)
+                return
+            if isinstance(base, MObj):
+                self.world.setitem(base, key, v, s)
+                return
+            raise PyErr("TypeError", "%s does not support item assignment" % type(base).__name__, getattr(s, "lineno", 0))
+        self.unsupported("assignment target %s" % type(t).__name__, s)
+
+    def s_If(self, s, fr):
+        self.block(s.body if self.truth(self.ev(s.test, fr)) else s.orelse, fr)
+
+    def s_For(self, s, fr):
+        broke = False
+        for x in self.iterate(self.ev(s.iter, fr), s):
+            self.tick(s)
+            self.assign(s.target, x, fr, s)
+            try:
+                self.block(s.body, fr)
+            except _Break:
+                broke = True
+                break
+            except _Continue:
+                continue
+        if not broke:
+            self.block(s.orelse, fr)
+
+    def s_While(self, s, fr):
+        broke = False
+        while self.truth(self.ev(s.test, fr)):
+            self.tick(s)
+            try:
+                self.block(s.body, fr)
+            except _Break:
+                broke = True
+                break
+            except _Continue:
+                continue
+        if not broke:
+            self.block(s.orelse, fr)
+
+    def s_Break(self, s, fr):
+        raise _Break()
+
+    def s_Continue(self, s, fr):
+        raise _Continue()
+
+    def s_Return(self, s, fr):
+        raise _Return(self.ev(s.value, fr) if s.value is not None else None)
+
+    def s_Raise(self, s, fr):
+        if s.exc is None:
+            if self._cur_exc is not None:
+                raise self._cur_exc
+            raise PyErr("RuntimeError", "No active exception to reraise", s.lineno)
+        v = self.ev(s.exc, fr)
+        if isinstance(v, ExcClass):
+            v = v()
+        if not isinstance(v, ExcInst):
+            raise PyErr("TypeError", "exceptions must derive from BaseException", s.lineno)
+        e = PyErr(v.kind, str(v), s.lineno)
+        e.inst = v
+        e.explicit = True
+        raise e
+
+    def s_Assert(self, s, fr):
+        if not self.truth(self.ev(s.test, fr)):
+            e = PyErr("AssertionError", str(self.ev(s.msg, fr)) if s.msg is not None else "", s.lineno)
+            e.explicit = True
+            raise e
+
+    def s_Delete(self, s, fr):
+        for t in s.targets:
+            if isinstance(t, ast.Name):
+                self.lookup(t.id, fr, s)
+                fr.env.pop(t.id, None)
+            elif isinstance(t, ast.Subscript):
+                base = self.ev(t.value, fr)
+                key = self.ev(t.slice, fr)
+                if isinstance(base, (list, dict)):
+                    self.native(operator.delitem, s, base, key)
+                else:
+                    self.unsupported("del of a subscript of %s" % type(base).__name__, s)
+            else:
+                self.unsupported("del target", s)
+
+    def s_Try(self, s, fr):
+        try:
+            try:
+                self.block(s.body, fr)
+            except PyErr as e:
+                for h in s.handlers:
+                    if h.type is None:
+                        ok = True
+                    else:
+                        c = self.ev(h.type, fr)
+                        cs = c if isinstance(c, (tuple, list)) else [c]
+                        ok = any(isinstance(x, ExcClass) and self.exc_matches(e.kind, x.kind) for x in cs)
+                    if ok:
+                        if h.name:
+                            fr.env[h.name] = getattr(e, "inst", ExcInst(e.kind, (e.msg,)))
+                        prev, self._cur_exc = self._cur_exc, e
+                        try:
+                            self.block(h.body, fr)
+                        finally:
+                            self._cur_exc = prev
+                        break
+                else:
+                    raise
+            else:
+                self.block(s.orelse, fr)
+        finally:
+            if s.finalbody:
+                self.block(s.finalbody, fr)
+
+    def s_FunctionDef(self, s, fr):
+        if s.decorator_list:
+            self.unsupported("decorated nested function", s)
+        fr.env[s.name] = FuncVal(s, self, fr)
+
+    def s_Import(self, s, fr):
+        for al in s.names:
+            if al.asname:
+                fr.env[al.asname] = Ext(al.name)
+            else:
+                fr.env[al.name.split(".")[0]] = Ext(al.name.split(".")[0])
+
+    def s_ImportFrom(self, s, fr):
+        for al in s.names:
+            fr.env[al.asname or al.name] = Ext(((s.module or "") + "." + al.name).lstrip("."))
 
 
-def run(repo, chk):
-    sp_fn = repo.func(LINK, "_split_or_break_pipe")
-    chk.fn(sp_fn)
-    wn_add_pipe = repo.func(MODEL, "WaterNetworkModel.add_pipe")
-    ap_names = params_of(wn_add_pipe)
-    s = sp.Symbol("split_at_point")
-    L = sp.Symbol("original_length")
+# ======================================================================================================================
+# Mock water network for wntr/morph/link.py: the facts about WaterNetworkModel the rules rely on (lookup by name, add_junction /
+# add_pipe bound through THEIR signatures in wntr/network/model.py, deepcopy shares nothing) and a log of every mutation.
+# ======================================================================================================================
+class MObj(object):
+    def __init__(self, cls, attrs=None, owner=None, label=None):
+        self.cls, self.attrs, self.owner, self.label = cls, dict(attrs or {}), owner, label
 
-    # ---------------------------------------------------------------- R-C19-1 / R-C19-2 / R-C19-3 per placement branch
-    br = [n for n in sp_fn.body if isinstance(n, ast.If) and unparse(n.test) == "add_pipe_at_end"]
-    if len(br) != 1:
-        raise ExtractError("_split_or_break_pipe: `if add_pipe_at_end` not found")
-    ol = [n for n in sp_fn.body if isinstance(n, ast.Assign) and unparse(n.targets[0]) == "original_length"]
-    chk.expect(bool(ol) and unparse(ol[0].value) == "pipe.length", "R-C19-1", "original_length is the pipe's length before any change", loc(sp_fn), found=unparse(ol[0].value) if ol else None)
-    env_top = local_env(sp_fn.body, br[0].lineno)
-    L = env_top.get("original_length", L)
-    for label, body in (("new pipe at the end", br[0].body), ("new pipe at the start", br[0].orelse)):
-        mod = ast.Module(body=body, type_ignores=[])
-        env_b = dict(env_top)
-        env_b.update(local_env(body))
-        ap = [c for c in calls(mod) if last_attr(c) == "add_pipe"]
-        la = [n for n in walk(mod) if isinstance(n, ast.Assign) and unparse(n.targets[0]) == "pipe.length"]
-        rewire = [n for n in walk(mod) if isinstance(n, ast.Assign) and unparse(n.targets[0]) in ("pipe.end_node", "pipe.start_node")]
-        if len(ap) != 1 or len(la) != 1 or len(rewire) != 1:
-            raise ExtractError("_split_or_break_pipe (%s): expected one add_pipe, one pipe.length store and one re-wiring, found %d/%d/%d" % (label, len(ap), len(la), len(rewire)))
-        args = bind_args(ap[0], ap_names)
-        new_len = sp.expand(S(args["length"], env_top))
-        old_len = sp.expand(S(la[0].value, env_top))
-        chk.expect(sp.simplify(new_len + old_len - L) == 0, "R-C19-1", "%s: new length + retained length = original length" % label, loc(sp_fn, ap[0]),
-                   "split/break must keep the total pipe length", expected=str(L), found=str(new_len + old_len))
-        keeps_start = unparse(rewire[0].targets[0]) == "pipe.end_node"
-        want_old = L * s if keeps_start else L * (1 - s)
-        chk.expect(sp.simplify(old_len - sp.expand(want_old)) == 0, "R-C19-1", "%s: the part that keeps the %s node is %s of the length" % (
-            label, "start" if keeps_start else "end", "s" if keeps_start else "1 - s"), loc(sp_fn, la[0]),
-                   "split_at_point is measured from the start node", expected=str(want_old), found=str(old_len))
-        # new pipe's end points
-        j_old = unparse(rewire[0].value)
-        sn, en = unparse(args["start_node_name"]), unparse(args["end_node_name"])
-        if keeps_start:
-            okw = sn == "j1" and en in ("end_node.name", "end_node._name") and j_old == "wn2.get_node(j0)"
+    def __repr__(self):
+        return "<%s %s>" % (self.cls, self.label or self.attrs.get("name", "?"))
+
+
+class EnumTok(object):
+    def __init__(self, name):
+        self.name = {"linkstatus.opened": "LinkStatus.Open"}.get(name.lower(), name)
+
+    def __eq__(self, o):
+        return isinstance(o, EnumTok) and o.name.lower() == self.name.lower()
+
+    def __hash__(self):
+        return hash(self.name.lower())
+
+    def __repr__(self):
+        return self.name
+
+
+class OwnedList(list):
+    """list stored in a model element: in-place changes are mutations of that element."""
+    world = None
+    holder = None
+
+    def _log(self):
+        if self.world is not None:
+            self.world.log("listmut", self.holder, "vertices", None)
+
+    def append(self, x): self._log(); list.append(self, x)
+    def extend(self, x): self._log(); list.extend(self, x)
+    def insert(self, i, x): self._log(); list.insert(self, i, x)
+    def pop(self, *a): self._log(); return list.pop(self, *a)
+    def remove(self, x): self._log(); list.remove(self, x)
+    def clear(self): self._log(); list.clear(self)
+    def sort(self, *a, **k): self._log(); list.sort(self, *a, **k)
+    def reverse(self): self._log(); list.reverse(self)
+    def __setitem__(self, i, x): self._log(); list.__setitem__(self, i, x)
+    def __delitem__(self, i): self._log(); list.__delitem__(self, i)
+    def __iadd__(self, x): self._log(); return list.__iadd__(self, x)
+
+
+class Registry(MObj):
+    """wn.nodes / wn.links: callable (-> (name, object) pairs), mapping by name."""
+
+    def __init__(self, model, which):
+        MObj.__init__(self, "Registry", owner=model, label=which)
+        self.model, self.which = model, which
+
+    def table(self):
+        return self.model.attrs["_" + self.which]
+
+    def __call__(self, *types):
+        return [(k, v) for k, v in self.table().items()]
+
+
+CLASS_PARENTS = {"Junction": ("Node",), "Tank": ("Node",), "Reservoir": ("Node",), "Pipe": ("Link",), "Pump": ("Link",), "HeadPump": ("Pump", "Link"),
+                 "PowerPump": ("Pump", "Link"), "Valve": ("Link",), "PRValve": ("Valve", "Link"), "TCValve": ("Valve", "Link"), "WaterNetworkModel": ()}
+NODE_ATTRS = ("name", "elevation", "coordinates", "node_type", "tag", "initial_quality", "base_head", "base_demand", "demand_pattern")
+LINK_ATTRS = ("name", "length", "diameter", "roughness", "minor_loss", "initial_status", "status", "check_valve", "vertices", "start_node", "end_node",
+              "link_type", "tag", "initial_setting", "bulk_coeff", "wall_coeff")
+LINK_STATUS_NAMES = {"open": "LinkStatus.Open", "opened": "LinkStatus.Open", "closed": "LinkStatus.Closed", "cv": "LinkStatus.CV", "active": "LinkStatus.Active"}
+
+
+def signature(fn):
+    """[(param, default AST or None)] without self."""
+    a = fn.args
+    ps = [x.arg for x in a.args]
+    ds = [None] * (len(ps) - len(a.defaults)) + list(a.defaults)
+    return [(p, d) for p, d in zip(ps, ds) if p != "self"]
+
+
+class LinkWorld(object):
+    def __init__(self, repo):
+        self.sig = {"add_pipe": signature(repo.func(MODEL, "WaterNetworkModel.add_pipe")), "add_junction": signature(repo.func(MODEL, "WaterNetworkModel.add_junction"))}
+        self.events = []          # (kind, object, attribute, value)
+        self.copies = {}          # id(original model) -> [copies]
+        self.models = []
+
+    # ---------------------------------------------------------------------------------------------- building
+    def log(self, kind, obj, attr, value):
+        self.events.append((kind, obj, attr, value))
+
+    def mutations(self):
+        return [e for e in self.events if e[0] != "deepcopy"]
+
+    def model(self):
+        m = MObj("WaterNetworkModel", {"_nodes": {}, "_links": {}}, label="wn#%d" % len(self.models))
+        m.owner = m
+        self.models.append(m)
+        return m
+
+    def node(self, m, cls, name, elevation, coordinates):
+        a = {"name": name, "coordinates": coordinates, "node_type": cls, "tag": None, "initial_quality": None}
+        if cls != "Reservoir":
+            a["elevation"] = elevation
         else:
-            okw = en == "j1" and sn in ("start_node.name", "start_node._name") and j_old == "wn2.get_node(j0)"
-        chk.expect(okw, "R-C19-3", "%s: the old pipe is re-wired to j0 through the end-node setter and the new pipe runs between j1 and the original far node" % label, loc(sp_fn, ap[0]),
-                   found="old pipe %s = %s; new pipe %s -> %s" % (unparse(rewire[0].targets[0]), j_old, sn, en))
-        # R-C19-2 copied attributes
-        for pname in ("diameter", "roughness"):
-            chk.expect(pname in args and unparse(args[pname]) == "pipe." + pname, "R-C19-2", "%s: add_pipe parameter %s receives pipe.%s" % (label, pname, pname), loc(sp_fn, ap[0]),
-                       "arguments are resolved through add_pipe's signature %s" % ap_names, expected="pipe." + pname, found=unparse(args[pname]) if pname in args else "<default>")
-        # quantities that add up along the pipe are partitioned, not duplicated: K_new + K_retained = K_original (like the lengths)
-        ml_old = [n for n in walk(mod) if isinstance(n, ast.Assign) and unparse(n.targets[0]) == "pipe.minor_loss"]
-        k_new = S(args["minor_loss"], {}) if "minor_loss" in args else sp.Integer(0)
-        k_old = S(ml_old[0].value, {}) if ml_old else sp.Symbol("pipe.minor_loss")
-        chk.expect(sp.simplify(k_new + k_old - sp.Symbol("pipe.minor_loss")) == 0, "R-C19-2b",
-                   "%s: the minor-loss coefficients of the two pipes add up to the original pipe's" % label, loc(sp_fn, ap[0]),
-                   "minor loss is K*v^2/2g per pipe: copying K to both halves doubles it, so SPLIT changes the heads downstream although the statement says it "
-                   "leaves the hydraulics of the rest of the network unchanged", expected="K_new + K_retained = pipe.minor_loss", found="%s + %s" % (k_new, k_old))
-        # status: the base status is a definition attribute; pipe.status is the result of the last simulation
-        st_ = args.get("initial_status")
-        chk.expect(st_ is not None and unparse(st_) in ("pipe.initial_status", "pipe._initial_status"), "R-C19-2", "%s: the new pipe's base status comes from the original pipe's initial_status" % label,
-                   loc(sp_fn, ap[0]), "pipe.status is the effective status after the last run / reset: a pipe that was closed during a run hands a Closed base status to the new half",
-                   expected="pipe.initial_status", found=unparse(st_) if st_ is not None else "<default>")
-        # for a SPLIT the two halves are in series: a closed new half without the original's controls blocks the line for good
-        chk.expect(False if (st_ is not None and flag_sensitive_status(sp_fn, st_) is False) else True, "R-C19-2c",
-                   "%s: a SPLIT does not put a closed, control-less pipe in series with the original" % label, loc(sp_fn, ap[0]),
-                   "the new half copies the base status and gets no controls: splitting an initially closed pipe that a control opens leaves the new half closed for ever",
-                   expected="Open for flag == 'SPLIT' (the original half keeps status and controls)", found=unparse(st_) if st_ is not None else "<default>")
-        cv = args.get("check_valve")
-        chk.expect(cv is None or const(cv, 1) is False, "R-C19-2", "%s: the new pipe gets no check valve" % label, loc(sp_fn, ap[0]),
-                   "documented: 'Check valves are not added to the new pipe'", expected="False (or omitted)", found=unparse(cv) if cv is not None else "omitted")
-        chk.expect(unparse(args["name"]) == "new_pipe_name", "R-C19-2", "%s: the new pipe is created under new_pipe_name" % label, loc(sp_fn, ap[0]))
-    chk.floor("R-C19-2", 10)
-    chk.floor("R-C19-2b", 2)
+            a["base_head"] = elevation
+        o = MObj(cls, a, m, name)
+        m.attrs["_nodes"][name] = o
+        return o
 
-    # elevation
-    el = [n for n in walk(sp_fn) if isinstance(n, ast.Assign) and unparse(n.targets[0]) == "junction_elevation"]
-    if len(el) != 3:
-        raise ExtractError("_split_or_break_pipe: expected three junction_elevation definitions, found %d" % len(el))
-    for a in el:
-        g = parent(a)
-        t = unparse(g.test) if isinstance(g, ast.If) and a in g.body else "else"
-        if t == "isinstance(start_node, Reservoir)":
-            chk.expect(unparse(a.value) == "end_node.elevation", "R-C19-1", "elevation next to a start reservoir is the end node's elevation", loc(sp_fn, a), found=unparse(a.value))
-        elif t == "isinstance(end_node, Reservoir)":
-            chk.expect(unparse(a.value) == "start_node.elevation", "R-C19-1", "elevation next to an end reservoir is the start node's elevation", loc(sp_fn, a), found=unparse(a.value))
-        else:
-            blk = g.orelse if isinstance(g, ast.If) else sp_fn.body
-            env = local_env(blk, a.lineno)
-            v = sp.expand(S(a.value, env))
-            e0, e1 = sp.Symbol("start_node.elevation"), sp.Symbol("end_node.elevation")
-            chk.expect(sp.simplify(v - sp.expand(e0 + (e1 - e0) * s)) == 0, "R-C19-1", "junction elevation = e_start + (e_end - e_start) * s", loc(sp_fn, a), found=str(v))
-    # coordinates without vertices
-    jc = [n for n in walk(sp_fn) if isinstance(n, ast.Assign) and unparse(n.targets[0]) == "junction_coordinates"]
-    dflt = [a for a in jc if not isinstance(a.value, ast.Tuple)]
-    jc = [a for a in jc if isinstance(a.value, ast.Tuple)]
-    for a in dflt:
-        chk.expect(unparse(a.value) in ("pipe.start_node.coordinates", "start_node.coordinates"), "R-C19-1", "the default junction position (split at the very start) is the start node", loc(sp_fn, a),
-                   found=unparse(a.value))
-    if len(jc) != 2:
-        raise ExtractError("expected two interpolating junction_coordinates definitions, found %d" % len(jc))
-    for a in jc:
-        blk = None
-        q = a
-        while q is not None and blk is None:
-            p_ = parent(q)
-            for fld in ("body", "orelse"):
-                lst = getattr(p_, fld, None)
-                if isinstance(lst, list) and q in lst:
-                    blk = lst
-            q = p_
-        env = local_env(blk, a.lineno)
-        xs, ys = [sp.expand(S(e, env)) for e in a.value.elts]
-        if "split_at" in {n.id for n in ast.walk(a.value) if isinstance(n, ast.Name)} and "split_at_point" not in unparse(a.value):
-            t = env.get("split_at")
-            x0, x1 = sp.Symbol("segment['start_pos'][0]"), sp.Symbol("segment['end_pos'][0]")
-            y0, y1 = sp.Symbol("segment['start_pos'][1]"), sp.Symbol("segment['end_pos'][1]")
-            want_t = (sp.Symbol("split_length") - sp.Symbol("segment['subtotal']")) / sp.Symbol("segment['length']")
-            chk.expect(t is not None and sp.simplify(t - want_t) == 0, "R-C19-1", "with vertices: position on the crossing segment = (split_length - subtotal) / segment length", loc(sp_fn, a), found=str(t))
-            chk.expect(sp.simplify(xs - sp.expand(x0 + (x1 - x0) * want_t)) == 0 and sp.simplify(ys - sp.expand(y0 + (y1 - y0) * want_t)) == 0, "R-C19-1",
-                       "with vertices: junction coordinates interpolate the crossing segment", loc(sp_fn, a), found="(%s, %s)" % (xs, ys))
-            guard = parent(a)
-            chk.expect(isinstance(guard, ast.If) and unparse(guard.test).replace(" ", "") == "segment['subtotal']+segment['length']>=split_length>segment['subtotal']", "R-C19-1",
-                       "with vertices: the crossing segment is the one with subtotal < split_length <= subtotal + length", loc(sp_fn, a), found=unparse(guard.test) if isinstance(guard, ast.If) else None)
-        else:
-            x0, x1 = sp.Symbol("pipe.start_node.coordinates[0]"), sp.Symbol("pipe.end_node.coordinates[0]")
-            y0, y1 = sp.Symbol("pipe.start_node.coordinates[1]"), sp.Symbol("pipe.end_node.coordinates[1]")
-            chk.expect(sp.simplify(xs - sp.expand(x0 + (x1 - x0) * s)) == 0 and sp.simplify(ys - sp.expand(y0 + (y1 - y0) * s)) == 0, "R-C19-1",
-                       "without vertices: junction coordinates = start + (end - start) * s", loc(sp_fn, a), found="(%s, %s)" % (xs, ys))
-    sl = [n for n in walk(sp_fn) if isinstance(n, ast.Assign) and unparse(n.targets[0]) == "split_length"]
-    chk.expect(bool(sl) and unparse(sl[0].value) in ("length * split_at_point", "split_at_point * length"), "R-C19-1", "with vertices: split_length = polyline length * s", loc(sp_fn), found=unparse(sl[0].value) if sl else None)
-    # vertex partition: every vertex of the original pipe goes to exactly one half: the loop that distributes segment start points appends on
-    # every path, and the only skipped segment is the first one BY POSITION (its start is the start node, not a vertex)
-    vloops = [n for n in walk(sp_fn) if isinstance(n, ast.For) and any(last_attr(c) == "append" and unparse(c.func.value) in ("first_vertices", "last_vertices") for c in calls(n))]
-    if len(vloops) != 1:
-        raise ExtractError("vertex distribution loop not found")
-    vl = vloops[0]
-    positional = unparse(vl.iter) in ("segments[1:]", "segments[1:len(segments)]")
-    gv = CFG(sp_fn) if False else None
-    from ..cfg import CFG as _CFG
-    gg = _CFG(sp_fn)
-    head = gg.loop_heads[vl]
-    apps = gg.nodes_where(lambda node, d: any(last_attr(c) == "append" and unparse(c.func.value) in ("first_vertices", "last_vertices") for c in calls(node)) and vl.lineno < node.lineno <= max(x.lineno for x in ast.walk(vl) if hasattr(x, "lineno")))
-    skip_path = None
-    for f0 in gg.succ_on(head, True):
-        skip_path = skip_path or gg.can_reach_avoiding(f0, {head}, apps)
-    if positional:
-        chk.expect(skip_path is None, "R-C19-1", "every vertex after the first segment is handed to one of the two pipes", loc(sp_fn, vl), found=gg.path_text(skip_path) if skip_path else None)
+    def link(self, m, cls, name, start, end, **attrs):
+        a = {"name": name, "start_node": m.attrs["_nodes"][start], "end_node": m.attrs["_nodes"][end], "link_type": cls, "tag": None,
+             "initial_status": EnumTok("LinkStatus.Open"), "status": EnumTok("LinkStatus.Open"), "initial_setting": None}
+        a.update(attrs)
+        o = MObj(cls, a, m, name)
+        vl = OwnedList(a.get("vertices", []))
+        vl.world, vl.holder = self, o
+        a["vertices"] = o.attrs["vertices"] = vl
+        m.attrs["_links"][name] = o
+        return o
+
+    def deepcopy(self, m):
+        c = self.model()
+        c.label = "copy of " + m.label
+        mp = {}
+        for k, o in m.attrs["_nodes"].items():
+            mp[id(o)] = c.attrs["_nodes"][k] = MObj(o.cls, dict(o.attrs), c, o.label)
+        for k, o in m.attrs["_links"].items():
+            a = dict(o.attrs)
+            a["start_node"], a["end_node"] = mp[id(a["start_node"])], mp[id(a["end_node"])]
+            n = MObj(o.cls, a, c, o.label)
+            vl = OwnedList(list(a["vertices"]))
+            vl.world, vl.holder = self, n
+            n.attrs["vertices"] = vl
+            c.attrs["_links"][k] = n
+        self.copies.setdefault(id(m), []).append(c)
+        self.log("deepcopy", m, None, c)
+        return c
+
+    # ------------------------------------------------------------------------------------- interpreter hooks
+    def isinstance(self, v, clsname):
+        if isinstance(v, EnumTok):
+            return clsname == "LinkStatus"
+        if not isinstance(v, MObj):
+            return False
+        return v.cls == clsname or clsname in CLASS_PARENTS.get(v.cls, ())
+
+    def truth(self, v):
+        return True
+
+    def external(self, dotted, args, kwargs, interp, n):
+        last = dotted.split(".")[-1]
+        if dotted == "copy.deepcopy" and len(args) >= 1:
+            if isinstance(args[0], MObj):
+                if args[0].cls != "WaterNetworkModel":
+                    interp.unsupported("deepcopy of a %s" % args[0].cls, n)
+                return self.deepcopy(args[0])
+            return interp.native(copy.deepcopy, n, args[0])
+        if dotted == "logging.getLogger":
+            return Sink()
+        if dotted.startswith(("logging.", "warnings.")):
+            return None
+        if dotted == "collections.namedtuple":
+            return interp.native(collections.namedtuple, n, *args, **kwargs)
+        if dotted in ("math.sqrt", "numpy.sqrt") and len(args) == 1:
+            return interp.binop(ast.Pow(), args[0], 0.5, n)
+        if dotted in ("math.hypot", "numpy.hypot") and len(args) == 2:
+            return interp.binop(ast.Pow(), interp.binop(ast.Add(), interp.binop(ast.Pow(), args[0], 2, n), interp.binop(ast.Pow(), args[1], 2, n), n), 0.5, n)
+        if dotted in ("math.fabs", "numpy.abs", "numpy.absolute") and len(args) == 1:
+            return interp.native(abs, n, args[0])
+        if dotted == "math.isnan" and len(args) == 1:
+            return float(args[0]) != float(args[0])
+        if dotted == "math.fsum" and len(args) == 1:
+            return interp.native(sum, n, interp.iterate(args[0], n))
+        if dotted == "itertools.accumulate" and len(args) == 1:
+            out, acc = [], None
+            for x in interp.iterate(args[0], n):
+                acc = x if acc is None else interp.binop(ast.Add(), acc, x, n)
+                out.append(acc)
+            return out
+        if dotted in ("itertools.chain",):
+            out = []
+            for a in args:
+                out.extend(interp.iterate(a, n))
+            return out
+        if last in CLASS_PARENTS or last == "LinkStatus":
+            interp.unsupported("construction of a %s" % last, n)
+        interp.unsupported("call of %s is not modelled" % dotted, n)
+
+    def getattr(self, o, attr, n):
+        ln = getattr(n, "lineno", 0)
+        if isinstance(o, Registry):
+            if attr in ("keys", "values", "items"):
+                t = o.table()
+                return {"keys": lambda: list(t.keys()), "values": lambda: list(t.values()), "items": lambda: list(t.items())}[attr]
+            raise Unknown("interpreter: registry attribute %s is not modelled" % attr)
+        if o.cls == "WaterNetworkModel":
+            return self.model_attr(o, attr, n)
+        a = attr[1:] if attr.startswith("_") and not attr.startswith("__") and attr[1:] in o.attrs else attr     # private twin of a public field
+        if a in o.attrs:
+            return o.attrs[a]
+        if a in ("start_node_name", "end_node_name") and a[:-5] in o.attrs:
+            return o.attrs[a[:-5]].attrs["name"]
+        if a == "cv" and "check_valve" in o.attrs:
+            return o.attrs["check_valve"]
+        known = NODE_ATTRS if "Node" in CLASS_PARENTS.get(o.cls, ()) else LINK_ATTRS
+        if a in known:
+            raise PyErr("AttributeError", "%s object has no attribute %r" % (o.cls, attr), ln)
+        raise Unknown("interpreter: attribute %s of a %s is not modelled (%s line %s)" % (attr, o.cls, LINK, ln))
+
+    def setattr(self, o, attr, v, n):
+        if o.cls in ("WaterNetworkModel", "Registry"):
+            raise Unknown("interpreter: store to %s.%s is not modelled" % (o.cls, attr))
+        self.log("store", o, attr, v)
+        a = attr[1:] if attr.startswith("_") and attr[1:] in o.attrs else attr
+        if a == "vertices" and isinstance(v, list) and not isinstance(v, OwnedList):
+            v2 = OwnedList(v)
+            v2.world, v2.holder = self, o
+            v = v2
+        o.attrs[a] = v
+
+    def getitem(self, o, key, n):
+        if isinstance(o, Registry):
+            if key in o.table():
+                return o.table()[key]
+            raise PyErr("KeyError", repr(key), getattr(n, "lineno", 0))
+        raise Unknown("interpreter: subscript of a %s is not modelled" % o.cls)
+
+    def setitem(self, o, key, v, n):
+        raise Unknown("interpreter: item store into a %s is not modelled" % o.cls)
+
+    def contains(self, o, x, n):
+        if isinstance(o, Registry):
+            return x in o.table()
+        raise Unknown("interpreter: membership test on a %s is not modelled" % o.cls)
+
+    def iterate(self, o, n):
+        if isinstance(o, Registry):
+            return list(o.table().keys())
+        raise PyErr("TypeError", "%s object is not iterable" % o.cls, getattr(n, "lineno", 0))
+
+    # ------------------------------------------------------------------------------------------- model facade
+    def bind(self, which, args, kwargs, interp):
+        sig = self.sig[which]
+        out = {}
+        if len(args) > len(sig):
+            raise PyErr("TypeError", "%s() takes at most %d arguments" % (which, len(sig)))
+        for (p, d), v in zip(sig, args):
+            out[p] = v
+        for k, v in kwargs.items():
+            if k in out or k not in [p for p, d in sig]:
+                raise PyErr("TypeError", "%s() got an unexpected or repeated argument %r" % (which, k))
+            out[k] = v
+        given = set(out)
+        for p, d in sig:
+            if p not in out:
+                if d is None:
+                    raise PyErr("TypeError", "%s() missing argument %r" % (which, p))
+                out[p] = const(d, None) if not isinstance(d, ast.Constant) else d.value
+        return out, given
+
+    def model_attr(self, m, attr, n):
+        nodes, links = m.attrs["_nodes"], m.attrs["_links"]
+        ln = getattr(n, "lineno", 0)
+
+        def by_cls(tab, cls):
+            return [(k, o) for k, o in tab.items() if self.isinstance(o, cls)]
+
+        def get(tab, what):
+            def f(name):
+                if name not in tab:
+                    raise PyErr("KeyError", "%s %r" % (what, name), ln)
+                return tab[name]
+            return f
+        if attr == "get_link":
+            return get(links, "link")
+        if attr == "get_node":
+            return get(nodes, "node")
+        if attr in ("nodes", "links"):
+            return Registry(m, attr)
+        listing = {"node_name_list": (nodes, "Node"), "link_name_list": (links, "Link"), "junction_name_list": (nodes, "Junction"), "tank_name_list": (nodes, "Tank"),
+                   "reservoir_name_list": (nodes, "Reservoir"), "pipe_name_list": (links, "Pipe"), "pump_name_list": (links, "Pump"), "valve_name_list": (links, "Valve")}
+        if attr in listing:
+            return [k for k, o in by_cls(*listing[attr])]
+        gens = {"junctions": (nodes, "Junction"), "tanks": (nodes, "Tank"), "reservoirs": (nodes, "Reservoir"), "pipes": (links, "Pipe"), "pumps": (links, "Pump"),
+                "valves": (links, "Valve")}
+        if attr in gens:
+            return lambda: by_cls(*gens[attr])
+        if attr in ("num_nodes", "num_links", "num_junctions", "num_pipes"):
+            return len(by_cls(*{"num_nodes": (nodes, "Node"), "num_links": (links, "Link"), "num_junctions": (nodes, "Junction"), "num_pipes": (links, "Pipe")}[attr]))
+        if attr == "add_junction":
+            def add_junction(*args, **kwargs):
+                b, given = self.bind("add_junction", args, kwargs, None)
+                if b["name"] in nodes:
+                    raise PyErr("ValueError", "node name %r already used" % (b["name"],), ln)
+                c = b.get("coordinates")
+                o = MObj("Junction", {"name": b["name"], "elevation": b.get("elevation"), "coordinates": tuple(c) if isinstance(c, (list, tuple)) else c,
+                                      "base_demand": b.get("base_demand"), "demand_pattern": b.get("demand_pattern"), "node_type": "Junction", "tag": None,
+                                      "initial_quality": None}, m, b["name"])
+                self.log("add_junction", o, None, (b, given))
+                nodes[b["name"]] = o
+            return add_junction
+        if attr == "add_pipe":
+            def add_pipe(*args, **kwargs):
+                b, given = self.bind("add_pipe", args, kwargs, None)
+                if b["name"] in links:
+                    raise PyErr("ValueError", "link name %r already used" % (b["name"],), ln)
+                for k in ("start_node_name", "end_node_name"):
+                    if not isinstance(b[k], str) or b[k] not in nodes:
+                        raise PyErr("KeyError", "add_pipe: %s %r is not a node of the model" % (k, b[k]), ln)
+                st = b.get("initial_status")
+                if isinstance(st, str):
+                    st = EnumTok(LINK_STATUS_NAMES.get(st.lower(), "LinkStatus." + st))
+                o = self.link(m, "Pipe", b["name"], b["start_node_name"], b["end_node_name"], length=b["length"], diameter=b["diameter"], roughness=b["roughness"],
+                              minor_loss=b["minor_loss"], initial_status=st, status=st, check_valve=b["check_valve"], bulk_coeff=None, wall_coeff=None)
+                self.log("add_pipe", o, None, (b, given))
+            return add_pipe
+        if attr in ("remove_link", "remove_node"):
+            tab = links if attr == "remove_link" else nodes
+
+            def remove(name, *a, **k):
+                if name not in tab:
+                    raise PyErr("KeyError", repr(name), ln)
+                self.log(attr, tab[name], None, None)
+                del tab[name]
+            return remove
+        if attr == "name":
+            return "mock"
+        raise Unknown("interpreter: WaterNetworkModel.%s is not modelled (%s line %s)" % (attr, LINK, ln))
+
+
+# ======================================================================================================================
+# R-C19-1 .. R-C19-4 for split_pipe / break_pipe / reverse_link: scenarios
+# ======================================================================================================================
+class Agg(object):
+    """one rule instance per (rule, construct): discharged iff it held in EVERY scenario that evaluated it."""
+
+    def __init__(self, chk):
+        self.chk, self.order, self.rec = chk, [], {}
+
+    def expect(self, cond, rule, construct, where, detail=None, expected=None, found=None, scen=None):
+        key = (rule, construct)
+        if key not in self.rec:
+            self.order.append(key)
+            self.rec[key] = {"n": 0, "loc": where, "detail": detail, "fail": None}
+        r = self.rec[key]
+        r["n"] += 1
+        if not cond and r["fail"] is None:
+            r["fail"] = (expected, found, scen)
+        return bool(cond)
+
+    def flush(self):
+        for key in self.order:
+            r = self.rec[key]
+            if r["fail"] is None:
+                self.chk.ok(key[0], key[1], r["loc"], (r["detail"] + "; " if r["detail"] else "") + "held in %d evaluated scenario(s)" % r["n"])
+            else:
+                e, f, sc = r["fail"]
+                self.chk.bad(key[0], key[1], r["loc"], r["detail"], expected=e, found=("%s  [scenario: %s]" % (f, sc)) if sc else f)
+        self.order, self.rec = [], {}
+
+
+def num(x):
+    if isinstance(x, bool):
+        return None
+    if isinstance(x, SV):
+        return x.v
+    if isinstance(x, (int, float)):
+        return float(x)
+    return None
+
+
+def same_num(a, b, tol=1e-9):
+    a, b = num(a), num(b)
+    return a is not None and b is not None and abs(a - b) <= tol * (1.0 + abs(b))
+
+
+def same_val(a, b, symbolic):
+    """equal at the sample point and, when the scenario is symbolic, identically equal as expressions."""
+    if not same_num(a, b):
+        return False
+    if not symbolic:
+        return True
+    a, b = SV.lift(a), SV.lift(b)
+    d = sp.expand(a.e - b.e)
+    return d == 0 or sp.simplify(d) == 0
+
+
+def same_pt(p, q, symbolic=False):
+    return isinstance(p, (tuple, list)) and len(p) == 2 and same_val(p[0], q[0], symbolic) and same_val(p[1], q[1], symbolic)
+
+
+def show(x):
+    if isinstance(x, SV):
+        return str(x.e)
+    if isinstance(x, (tuple, list)):
+        return "(" + ", ".join(show(y) for y in x) + ")"
+    return repr(x)
+
+
+POLYLINES = [
+    # (start, vertices, end): segment lengths 3, 4, 5
+    ((0.0, 0.0), [(3.0, 0.0), (3.0, 4.0)], (6.0, 8.0)),
+    # a vertex ON the start node (GIS exports repeat the end point), a vertex visited twice: lengths 0, 6, 8, 10, 10, 10
+    ((0.0, 0.0), [(0.0, 0.0), (6.0, 0.0), (6.0, 8.0), (0.0, 0.0), (0.0, 10.0)], (10.0, 10.0)),
+    # a repeated vertex in the middle (zero-length segment) and a vertex on the end node: lengths 5, 0, 5, 0
+    ((0.0, 0.0), [(4.0, 3.0), (4.0, 3.0), (8.0, 6.0)], (8.0, 6.0)),
+    # one vertex: lengths 13, 5
+    ((1.0, 2.0), [(6.0, 14.0)], (9.0, 10.0)),
+]
+
+
+def polyline_ref(start, verts, end, s):
+    """(point at the fraction s of the arc length, arc length of every vertex, target arc length, total)"""
+    pts = [start] + list(verts) + [end]
+    lens = [((a[0] - b[0]) ** 2 + (a[1] - b[1]) ** 2) ** 0.5 for a, b in zip(pts[:-1], pts[1:])]
+    cum = [0.0]
+    for l in lens:
+        cum.append(cum[-1] + l)
+    total = cum[-1]
+    target = total * s
+    pt = pts[0]
+    for k, l in enumerate(lens):
+        if cum[k] < target <= cum[k] + l and l > 0:
+            t = (target - cum[k]) / l
+            pt = (pts[k][0] + (pts[k + 1][0] - pts[k][0]) * t, pts[k][1] + (pts[k + 1][1] - pts[k][1]) * t)
+            break
     else:
-        # iterating all segments: the skipping guard must test the position, not the coordinates
-        guards_ = [n for n in walk(vl) if isinstance(n, ast.If) and any(isinstance(x, ast.Pass) for x in n.body)]
-        by_value = [g_ for g_ in guards_ if "coordinates" in unparse(g_.test) or "start_pos" in unparse(g_.test)]
-        chk.expect(not by_value and skip_path is None, "R-C19-1", "every vertex after the first segment is handed to one of the two pipes", loc(sp_fn, vl),
-                   "the first segment is skipped by comparing coordinates: a genuine vertex lying on the start node (GIS exports repeat the end point) is dropped from both halves",
-                   expected="skip by position (segments[1:])", found=[unparse(g_.test) for g_ in by_value] or (gg.path_text(skip_path) if skip_path else None))
-    # the new junction(s) get the computed elevation and coordinates
-    aj = [c for c in calls(sp_fn) if last_attr(c) == "add_junction"]
-    okj = len(aj) == 1 and {k.arg: unparse(k.value) for k in aj[0].keywords}.get("elevation") == "junction_elevation" and \
-        {k.arg: unparse(k.value) for k in aj[0].keywords}.get("coordinates") == "junction_coordinates"
-    chk.expect(okj, "R-C19-1", "the new junction(s) are created with the interpolated elevation and coordinates", loc(sp_fn, aj[0]) if aj else loc(sp_fn))
-    # definite assignment: on every path to add_junction the elevation and the coordinates have been computed
+        if target > 0:
+            pt = pts[-1]
+    return pt, cum[1:-1], target, total
+
+
+class Scenario(object):
+    def __init__(self, **kw):
+        self.fn = "split_pipe"
+        self.at_end = True
+        self.s = 0.5
+        self.rc = True
+        self.kinds = ("Junction", "Junction")
+        self.poly = None            # index into POLYLINES or None (no vertices)
+        self.symbolic = False
+        self.status = ("Closed", "Open")       # (initial_status, status) of the pipe
+        self.target = "P"
+        self.new_pipe = "PN"
+        self.jnames = None
+        self.defaults = False
+        self.__dict__.update(kw)
+        if self.jnames is None:
+            self.jnames = ["JN"] if self.fn == "split_pipe" else ["JO", "JW"]
+
+    def text(self):
+        return "%s(%s, new pipe %s, junction(s) %s, add_pipe_at_end=%s, split_at_point=%s, return_copy=%s) on a %s-%s pipe %s" % (
+            self.fn, self.target, self.new_pipe, "/".join(self.jnames), "default" if self.defaults else self.at_end,
+            "default" if self.defaults else (num(self.s) if num(self.s) is not None else self.s), "default" if self.defaults else self.rc,
+            self.kinds[0], self.kinds[1], ("with vertices %s" % (POLYLINES[self.poly][1],)) if self.poly is not None else "without vertices")
+
+
+class Run(object):
+    pass
+
+
+def run_scenario(repo, sc):
+    w = LinkWorld(repo)
+    m = w.model()
+    sym = sc.symbolic
+    mk = (lambda name, v: SV(sp.Symbol(name, real=True), v)) if sym else (lambda name, v: v)
+    if sc.poly is not None:
+        a_xy, verts, b_xy = POLYLINES[sc.poly]
+    else:
+        a_xy, verts, b_xy = (mk("xa", 2.0), mk("ya", 3.0)), [], (mk("xb", 14.0), mk("yb", -6.0))
+    r = Run()
+    r.world, r.orig, r.sc = w, m, sc
+    r.e = (mk("ea", 10.0), mk("eb", 25.0))
+    w.node(m, sc.kinds[0], "A", r.e[0], a_xy)
+    w.node(m, sc.kinds[1], "B", r.e[1], b_xy)
+    w.node(m, "Junction", "X", 7.0, (50.0, 50.0))
+    r.L, r.D, r.C, r.K = mk("L", 1000.0), mk("D", 0.35), mk("C", 110.0), mk("K", 20.0)
+    r.init, r.status = EnumTok("LinkStatus." + sc.status[0]), EnumTok("LinkStatus." + sc.status[1])
+    w.link(m, "Pipe", "P", "A", "B", length=r.L, diameter=r.D, roughness=r.C, minor_loss=r.K, initial_status=r.init, status=r.status, check_valve=True,
+           vertices=list(verts), bulk_coeff=None, wall_coeff=None)
+    w.link(m, "Pipe", "Q", "B", "X", length=55.0, diameter=0.2, roughness=90.0, minor_loss=0.0, check_valve=False, vertices=[(20.0, 20.0)], bulk_coeff=None, wall_coeff=None)
+    w.link(m, "Valve", "V", "X", "A", diameter=0.3, minor_loss=0.0, vertices=[], valve_type="PRV")
+    r.a_xy, r.verts, r.b_xy = a_xy, list(verts), b_xy
+    it = Interp(repo, LINK, w)
+    fn = it.lookup(sc.fn, it.modframe)
+    args = [m, sc.target, sc.new_pipe] + list(sc.jnames)
+    kwargs = {} if sc.defaults else {"add_pipe_at_end": sc.at_end, "split_at_point": sc.s, "return_copy": sc.rc}
+    r.raised, r.ret = None, None
+    try:
+        r.ret = it.apply(fn, args, kwargs)
+    except PyErr as e:
+        r.raised = e
+    return r
+
+
+def check_refusal(A, r, rule, construct, where, detail=None):
+    """the call must be refused by a deliberate raise before anything of any model is changed."""
+    sc = r.sc
+    muts = r.world.mutations()
+    deliberate = r.raised is not None and getattr(r.raised, "explicit", False)
+    A.expect(deliberate and not muts, rule, construct, where, detail, expected="an exception raised before the first mutation",
+             found=("no exception" if r.raised is None else "%s%s" % (r.raised, "" if deliberate else " (not a deliberate refusal)")) +
+             ("; the model was already changed: %s" % ", ".join("%s %r" % (e[0], e[1]) for e in muts[:3]) if muts else ""), scen=sc.text())
+
+
+def check_copy(A, r, qual, where):
+    """R-C19-4: with return_copy the caller's model is not changed (nor aliased into the result); without, it is the model that is changed and returned."""
+    sc, w = r.sc, r.world
+    copies = w.copies.get(id(r.orig), [])
+    rc = True if sc.defaults else sc.rc
+    if rc:
+        okw = isinstance(r.ret, MObj) and r.ret is not r.orig and any(r.ret is c for c in copies)
+    else:
+        okw = r.ret is r.orig
+    A.expect(okw, "R-C19-4", "%s works on copy.deepcopy(wn) when return_copy is true (else on wn itself)" % qual, where,
+             expected="the returned model is %s" % ("a deep copy of the argument" if rc else "the argument itself"), found=repr(r.ret), scen=sc.text())
+    touched = []
+    for kind, o, attr, v in w.mutations():
+        if rc and o is not None and o.owner is r.orig:
+            touched.append("%s of %r" % (kind if attr is None else "%s .%s" % (kind, attr), o))
+        vals = v if isinstance(v, (list, tuple)) else [v]
+        for x in vals:
+            if isinstance(x, MObj) and o is not None and x.owner is not None and x.owner is not o.owner:
+                touched.append("%r of %s stored into %r of %s" % (x, x.owner.label, o, o.owner.label))
+    A.expect(not touched, "R-C19-4", "%s touches the caller's model only to copy it" % qual, where,
+             "every change of (or reference into) the input model breaks the promise of return_copy=True to leave it untouched",
+             expected="no mutation of the argument model, no object shared between the two models", found="; ".join(touched[:3]), scen=sc.text())
+
+
+def check_split(A, r, sp_loc):
+    """compare one admissible run of split_pipe / break_pipe with what the documentation promises."""
+    sc, w = r.sc, r.world
+    at_end = True if sc.defaults else sc.at_end
+    s = 0.5 if sc.defaults else sc.s
+    label = "new pipe at the end" if at_end else "new pipe at the start"
+    sym = sc.symbolic
+    T = sc.text()
+    if r.raised is not None:
+        A.expect(False, "R-C19-1", "split_pipe / break_pipe complete for every admissible input", sp_loc,
+                 "an exception for a pipe, free names and 0 <= split_at_point <= 1 (e.g. UnboundLocalError at the ends of the range) is a defect",
+                 expected="no exception", found="%s at line %s" % (r.raised, r.raised.lineno), scen=T)
+        return
+    A.expect(True, "R-C19-1", "split_pipe / break_pipe complete for every admissible input", sp_loc)
+    check_copy(A, r, sc.fn, sp_loc)
+    work = r.ret
+    if not (isinstance(work, MObj) and work.cls == "WaterNetworkModel"):
+        return
+    nodes, links = work.attrs["_nodes"], work.attrs["_links"]
+    P = links.get("P")
+    added_j = [e for e in w.events if e[0] == "add_junction" and e[1].owner is work]
+    added_p = [e for e in w.events if e[0] == "add_pipe" and e[1].owner is work]
+    is_split = sc.fn == "split_pipe"
+    # ------------------------------------------------------------ junction(s)
+    A.expect([e[1].attrs["name"] for e in added_j] == list(sc.jnames) or sorted(e[1].attrs["name"] for e in added_j) == sorted(sc.jnames), "R-C19-3",
+             "%s passes %d new junction name(s)" % (sc.fn, 1 if is_split else 2), sp_loc, expected=sc.jnames, found=[e[1].attrs["name"] for e in added_j], scen=T)
+    # reference elevation / position
+    e0, e1 = r.e
+    if sc.kinds[0] == "Reservoir":
+        want_e, econ = e1, "elevation next to a start reservoir is the end node's elevation"
+    elif sc.kinds[1] == "Reservoir":
+        want_e, econ = e0, "elevation next to an end reservoir is the start node's elevation"
+    else:
+        want_e, econ = e0 + (e1 - e0) * s, "junction elevation = e_start + (e_end - e_start) * s"
+    first_ref = last_ref = None
+    if sc.poly is None:
+        want_xy = (r.a_xy[0] + (r.b_xy[0] - r.a_xy[0]) * s, r.a_xy[1] + (r.b_xy[1] - r.a_xy[1]) * s)
+        ccon = "without vertices: junction coordinates = start + (end - start) * s"
+        cum, target = [], None
+    else:
+        want_xy, cum, target, total = polyline_ref(r.a_xy, r.verts, r.b_xy, num(s))
+        tie = any(abs(c - target) <= 1e-9 * (1 + total) for c in cum)
+        if num(s) == 0:
+            ccon = "the default junction position (split at the very start) is the start node"
+        elif num(s) == 1:
+            ccon = "with vertices: a split at the very end puts the junction on the end node"
+        elif tie:
+            ccon = "with vertices: a split exactly at a vertex puts the junction on that vertex"
+        else:
+            ccon = "with vertices: junction coordinates interpolate the crossing segment"
+    for e in added_j:
+        j = e[1]
+        A.expect(same_val(j.attrs.get("elevation"), want_e, sym), "R-C19-1", econ, sp_loc, expected=show(want_e), found=show(j.attrs.get("elevation")), scen=T)
+        A.expect(same_pt(j.attrs.get("coordinates"), want_xy, sym), "R-C19-1", ccon, sp_loc,
+                 "the junction lies at the fraction s of the (polyline) length from the start node: subtotal < s * length <= subtotal + segment length picks the segment, "
+                 "(s * length - subtotal) / segment length the position on it", expected=show(want_xy), found=show(j.attrs.get("coordinates")), scen=T)
+    A.expect(len(added_j) >= 1 and all(same_val(e[1].attrs.get("elevation"), added_j[0][1].attrs.get("elevation"), sym)
+                                      and same_pt(e[1].attrs.get("coordinates"), added_j[0][1].attrs.get("coordinates") or (None, None), sym) for e in added_j),
+             "R-C19-1", "the new junction(s) are created with the interpolated elevation and coordinates", sp_loc, found=[show(e[1].attrs.get("coordinates")) for e in added_j], scen=T)
+    # ------------------------------------------------------------ the new pipe
+    okp = len(added_p) == 1 and added_p[0][1].attrs["name"] == sc.new_pipe and links.get(sc.new_pipe) is added_p[0][1]
+    A.expect(okp, "R-C19-2", "%s: the new pipe is created under new_pipe_name" % label, sp_loc, expected="one add_pipe(%r, ...)" % sc.new_pipe,
+             found=[e[1].attrs["name"] for e in added_p], scen=T)
+    if not okp or P is None:
+        return
+    N = added_p[0][1]
+    b, given = added_p[0][3]
+    j0, j1 = sc.jnames[0], sc.jnames[-1]
+    A0, B0 = nodes.get("A"), nodes.get("B")
+    stores = [e for e in w.events if e[0] == "store" and e[1] is P]
+    rew = [e[2] for e in stores if e[2].lstrip("_") in ("start_node", "end_node", "start_node_name", "end_node_name")]
+    if at_end:
+        okw = rew == ["end_node"] and P.attrs["end_node"] is nodes.get(j0) and P.attrs["start_node"] is A0 and N.attrs["start_node"] is nodes.get(j1) and N.attrs["end_node"] is B0
+    else:
+        okw = rew == ["start_node"] and P.attrs["start_node"] is nodes.get(j0) and P.attrs["end_node"] is B0 and N.attrs["end_node"] is nodes.get(j1) and N.attrs["start_node"] is A0
+    A.expect(okw, "R-C19-3", "%s: the old pipe is re-wired to j0 through the end-node setter and the new pipe runs between j1 and the original far node" % label, sp_loc,
+             "the start_node / end_node setters maintain the node registry's usage records; the private fields do not",
+             expected="old pipe %s -> %s, new pipe %s -> %s" % (("A", j0, j1, "B") if at_end else (j0, "B", "A", j1)),
+             found="stores on the old pipe %s; old pipe %r -> %r, new pipe %r -> %r" % (rew, P.attrs["start_node"], P.attrs["end_node"], N.attrs["start_node"], N.attrs["end_node"]), scen=T)
+    meet_old = P.attrs["end_node"] if at_end else P.attrs["start_node"]
+    meet_new = N.attrs["start_node"] if at_end else N.attrs["end_node"]
+    if is_split:
+        A.expect(meet_old is meet_new and meet_old is nodes.get(sc.jnames[0]), "R-C19-3", "SPLIT joins both pipes at one new junction", sp_loc, found="%r / %r" % (meet_old, meet_new), scen=T)
+    else:
+        A.expect(meet_old is nodes.get("JO") and meet_new is nodes.get("JW") and meet_old is not meet_new, "R-C19-3", "BREAK ends the two pipes at two different new junctions", sp_loc,
+                 expected="old pipe at new_junction_name_old_pipe, new pipe at new_junction_name_new_pipe", found="%r / %r" % (meet_old, meet_new), scen=T)
+    # lengths
+    L = r.L
+    ln, lo = N.attrs.get("length"), P.attrs.get("length")
+    tot = (SV.lift(ln) + SV.lift(lo)) if num(ln) is not None and num(lo) is not None else None
+    A.expect(tot is not None and same_val(tot, L, sym), "R-C19-1", "%s: new length + retained length = original length" % label, sp_loc,
+             "split/break must keep the total pipe length", expected=show(L), found="%s + %s" % (show(ln), show(lo)), scen=T)
+    keeps_start = P.attrs["start_node"] is A0
+    want_old = L * s if at_end else L * (1 - s)
+    A.expect(same_val(lo, want_old, sym) and keeps_start == at_end, "R-C19-1", "%s: the part that keeps the %s node is %s of the length" % (
+        label, "start" if at_end else "end", "s" if at_end else "1 - s"), sp_loc, "split_at_point is measured from the start node", expected=show(want_old), found=show(lo), scen=T)
+    # copied attributes, resolved through add_pipe's signature
+    for pname, ref in (("diameter", r.D), ("roughness", r.C)):
+        A.expect(same_val(N.attrs.get(pname), ref, sym), "R-C19-2", "%s: add_pipe parameter %s receives pipe.%s" % (label, pname, pname), sp_loc,
+                 "arguments are resolved through add_pipe's signature %s" % [p for p, d in w.sig["add_pipe"]], expected="pipe." + pname,
+                 found=show(N.attrs.get(pname)) + ("" if pname in given else " <default>"), scen=T)
+    kn, ko = N.attrs.get("minor_loss"), P.attrs.get("minor_loss")
+    A.expect(num(kn) is not None and num(ko) is not None and same_val(SV.lift(kn) + SV.lift(ko), r.K, sym), "R-C19-2b",
+             "%s: the minor-loss coefficients of the two pipes add up to the original pipe's" % label, sp_loc,
+             "minor loss is K*v^2/2g per pipe: copying K to both halves doubles it, so SPLIT changes the heads downstream although the statement says it "
+             "leaves the hydraulics of the rest of the network unchanged", expected="K_new + K_retained = pipe.minor_loss", found="%s + %s" % (show(kn), show(ko)), scen=T)
+    st_ = N.attrs.get("initial_status")
+    opened = EnumTok("LinkStatus.Open")
+    oks = st_ == r.init or (is_split and st_ == opened and "initial_status" in given)
+    A.expect(oks, "R-C19-2", "%s: the new pipe's base status comes from the original pipe's initial_status" % label, sp_loc,
+             "pipe.status is the effective status after the last run / reset: a pipe that was closed during a run hands a Closed base status to the new half",
+             expected="pipe.initial_status", found="%r%s (pipe.initial_status = %r, pipe.status = %r)" % (st_, "" if "initial_status" in given else " <default>", r.init, r.status), scen=T)
+    if is_split and r.init == EnumTok("LinkStatus.Closed"):
+        A.expect(st_ != r.init, "R-C19-2c", "%s: a SPLIT does not put a closed, control-less pipe in series with the original" % label, sp_loc,
+                 "the new half copies the base status and gets no controls: splitting an initially closed pipe that a control opens leaves the new half closed for ever",
+                 expected="Open for flag == 'SPLIT' (the original half keeps status and controls)", found="pipe.initial_status" if st_ == r.init else repr(st_), scen=T)
+    cv = N.attrs.get("check_valve")
+    A.expect(cv is False or (num(cv) == 0 and not isinstance(cv, bool)) or cv is None, "R-C19-2", "%s: the new pipe gets no check valve" % label, sp_loc,
+             "documented: 'Check valves are not added to the new pipe'", expected="False (or omitted)", found=show(cv) + " for a pipe with check_valve=True", scen=T)
+    # vertices: every vertex goes to exactly one half, in order, separated by the junction
+    fv = list(P.attrs.get("vertices") or []) if at_end else list(N.attrs.get("vertices") or [])
+    lv = list(N.attrs.get("vertices") or []) if at_end else list(P.attrs.get("vertices") or [])
+    allv = fv + lv
+    okv = len(allv) == len(r.verts) and all(same_pt(p, q) for p, q in zip(allv, r.verts))
+    why = "first half %s, second half %s" % (fv, lv)
+    if okv and sc.poly is not None:
+        tol = 1e-9 * (1 + (cum[-1] if cum else 1.0))
+        for i, c in enumerate(cum):
+            if i < len(fv) and c > target + tol:
+                okv, why = False, why + ": vertex %d lies behind the junction but stays on the first half" % i
+            if i >= len(fv) and c < target - tol:
+                okv, why = False, why + ": vertex %d lies before the junction but goes to the second half" % i
+    A.expect(okv, "R-C19-1", "every vertex after the first segment is handed to one of the two pipes", sp_loc,
+             "the vertices of the original pipe are partitioned, in order, at the junction; only the start node itself (by POSITION in the polyline, not by "
+             "coordinates: GIS exports repeat the end point as a vertex) is no vertex", expected="%s split at arc length %s" % (r.verts, target), found=why, scen=T)
+    # nothing else
+    allowed = {id(P), id(N)} | {id(e[1]) for e in added_j}
+    other = ["%s%s of %r" % (e[0], (" ." + e[2]) if e[2] else "", e[1]) for e in w.mutations() if e[1] is not None and e[1].owner is work and id(e[1]) not in allowed]
+    other += ["store .%s of the old pipe" % e[2] for e in stores if e[2].lstrip("_") not in ("start_node", "end_node", "length", "vertices", "minor_loss")]
+    A.expect(not other and set(nodes) == {"A", "B", "X"} | set(sc.jnames) and set(links) == {"P", "Q", "V", sc.new_pipe}, "R-C19-3",
+             "split / break change nothing but the old pipe, the new pipe and the new junction(s)", sp_loc, found="; ".join(other[:3]) or "nodes %s links %s" % (sorted(nodes), sorted(links)), scen=T)
+
+
+def link_rules(repo, chk):
+    sp_fn = repo.func(LINK, "_split_or_break_pipe")
+    rev = repo.func(LINK, "reverse_link")
+    pubs = {q: repo.func(LINK, q) for q in ("split_pipe", "break_pipe")}
+    chk.fn(sp_fn, rev, *pubs.values())
+    sp_loc = loc(sp_fn)
+    A = Agg(chk)
+    scen = []
+    fns = ("split_pipe", "break_pipe")
+    # symbolic runs: identities in s, L, elevations, coordinates, D, C, K
+    i = 0
+    for fn in fns:
+        for at_end in (True, False):
+            for kinds in (("Junction", "Junction"), ("Reservoir", "Junction"), ("Junction", "Reservoir"), ("Tank", "Junction")):
+                for status in (("Closed", "Open"), ("Open", "Closed")):
+                    i += 1
+                    sv = SV(sp.Symbol("s", real=True), 0.3 if i % 3 else 0.7)
+                    scen.append(Scenario(fn=fn, at_end=at_end, kinds=kinds, status=status, symbolic=True, s=sv, rc=bool(i % 2)))
+    # numeric runs along polylines (and the ends of the range without vertices)
+    for fn in fns:
+        for at_end in (True, False):
+            for s in (0.0, 1.0):
+                scen.append(Scenario(fn=fn, at_end=at_end, s=s, rc=False))
+            for pi, (a, vs, b) in enumerate(POLYLINES):
+                pt, cum, target, total = polyline_ref(a, vs, b, 1.0)
+                fr = sorted(set([k / 24.0 for k in range(25)] + [c / total for c in cum]))
+                if fn == "break_pipe":
+                    fr = [0.0, 0.25, 0.5, 0.8, 1.0]
+                for s in fr:
+                    scen.append(Scenario(fn=fn, at_end=at_end, s=s, poly=pi, rc=(len(scen) % 2 == 0)))
+    for sc in scen:
+        check_split(A, run_scenario(repo, sc), sp_loc)
+    # documented defaults of the public functions
+    for fn in fns:
+        r = run_scenario(repo, Scenario(fn=fn, defaults=True, poly=0))
+        check_split(A, r, loc(pubs[fn]))
+    # refusals
+    for fn in fns:
+        for rc in (False, True):
+            for poly in (None, 0):
+                for s in (-1e-9, -0.25, -3.0, 1.0 + 1e-9, 1.25, 7.0):
+                    check_refusal(A, run_scenario(repo, Scenario(fn=fn, s=s, rc=rc, poly=poly)), "R-C19-1", "0 <= split_at_point <= 1 is enforced before any mutation", sp_loc)
+            jn = [["X"]] if fn == "split_pipe" else [["X", "JW"], ["JO", "X"], ["JO", "B"]]
+            for names in jn:
+                check_refusal(A, run_scenario(repo, Scenario(fn=fn, rc=rc, jnames=names)), "R-C19-3", "a new junction name that is already used by a node is refused before any mutation", sp_loc)
+            for nm in ("Q", "P", "V"):
+                check_refusal(A, run_scenario(repo, Scenario(fn=fn, rc=rc, new_pipe=nm)), "R-C19-3", "a new pipe name that is already used by a link is refused before any mutation", sp_loc)
+            check_refusal(A, run_scenario(repo, Scenario(fn=fn, rc=rc, target="V")), "R-C19-3", "only pipes can be split (refused before mutation)", sp_loc)
+    # reverse_link: copy isolation
+    for rc in (True, False):
+        w = LinkWorld(repo)
+        m = w.model()
+        w.node(m, "Junction", "A", 1.0, (0.0, 0.0))
+        w.node(m, "Tank", "B", 2.0, (5.0, 5.0))
+        w.link(m, "Pipe", "P", "A", "B", length=10.0, diameter=0.3, roughness=100.0, minor_loss=0.0, check_valve=False, vertices=[(1.0, 1.0), (2.0, 4.0)], bulk_coeff=None, wall_coeff=None)
+        w.link(m, "Pump", "U", "B", "A", vertices=[(3.0, 3.0)])
+        for target in ("P", "U"):
+            r = Run()
+            r.world, r.orig, r.sc = w, m, Scenario(fn="reverse_link", rc=rc, target=target)
+            r.sc.text = (lambda t=target, c=rc: "reverse_link(wn, %r, return_copy=%s)" % (t, c))
+            it = Interp(repo, LINK, w)
+            r.raised = None
+            try:
+                r.ret = it.apply(it.lookup("reverse_link", it.modframe), [m, target], {"return_copy": rc})
+            except PyErr as e:
+                r.raised, r.ret = e, None
+            A.expect(r.raised is None, "R-C19-4", "reverse_link completes for a pipe and a pump", loc(rev), found=str(r.raised), scen=r.sc.text())
+            if r.raised is None:
+                check_copy(A, r, "reverse_link", loc(rev))
+                w.events[:] = []
+    A.flush()
+    # definite assignment: on every path to add_junction every local it reads has been assigned (a split at the very start / end takes the paths on which no
+    # segment is selected)
     from ..cfg import CFG
     g = CFG(sp_fn)
     usej = g.calling("add_junction")
-    for var in ("junction_elevation", "junction_coordinates"):
+    locals_ = _stored_in(sp_fn) - {a.arg for a in sp_fn.args.args}
+    read = []
+    for i in usej:
+        for c in walk(g.node_ast(i)):
+            if isinstance(c, ast.Call) and last_attr(c) == "add_junction":
+                for x in list(c.args) + [k.value for k in c.keywords]:
+                    for nm in ast.walk(x):
+                        if isinstance(nm, ast.Name) and nm.id in locals_ and nm.id not in read:
+                            read.append(nm.id)
+    loop_targets = {x.id for f in walk(sp_fn) if isinstance(f, ast.For) for x in ast.walk(f.target) if isinstance(x, ast.Name)}
+    n_def = 0
+    for var in read:
+        if var in loop_targets:
+            continue
         defs = g.assigning(var)
-        okd, w = g.must_pass(g.entry, usej, defs)
-        chk.expect(bool(usej) and bool(defs) and okd, "R-C19-1", "%s is assigned on every path that reaches add_junction" % var, loc(sp_fn),
-                   "a path that skips every assignment raises UnboundLocalError for an admissible split_at_point", found=("path: " + g.path_text(w)[:300]) if w else None)
-    # range check before any mutation
-    muts = mutations(list(sp_fn.body))
-    muts = [m for m in muts if not (isinstance(m[3], ast.Assign) and isinstance(m[3].targets[0], ast.Name))]
-    first_mut = min(m[0] for m in muts) if muts else None
-    rng = [n for n in walk(sp_fn) if isinstance(n, ast.If) and "split_at_point" in unparse(n.test) and any(isinstance(x, ast.Raise) for x in n.body)]
-    okr = False
-    if rng:
-        t = unparse(rng[0].test).replace(" ", "")
-        okr = t in ("split_at_point<0orsplit_at_point>1", "split_at_point>1orsplit_at_point<0", "not0<=split_at_point<=1") and rng[0].lineno < first_mut
-    chk.expect(okr, "R-C19-1", "0 <= split_at_point <= 1 is enforced before any mutation", loc(sp_fn, rng[0]) if rng else loc(sp_fn), found=unparse(rng[0].test) if rng else None)
-    chk.floor("R-C19-1", 4 + 3 + 4 + 3)
+        okd, wpath = g.must_pass(g.entry, usej, defs)
+        n_def += 1
+        chk.expect(bool(defs) and okd, "R-C19-1", "the value passed to add_junction (%d) is assigned on every path that reaches the call" % n_def, sp_loc,
+                   "a path that skips every assignment raises UnboundLocalError for an admissible split_at_point", found=("%s; path: %s" % (var, g.path_text(wpath)[:300])) if wpath else var)
+    if not usej:
+        raise ExtractError("_split_or_break_pipe: no add_junction call")
 
-    # R-C19-3 junction names, clash checks
-    fl = [n for n in sp_fn.body if isinstance(n, ast.If) and "flag" in unparse(n.test)]
-    tab = {}
-    for n in fl:
-        cur = n
-        while isinstance(cur, ast.If):
-            key = const(cur.test.comparators[0]) if isinstance(cur.test, ast.Compare) else None
-            tab[key] = {unparse(a.targets[0]): unparse(a.value) for a in cur.body if isinstance(a, ast.Assign)}
-            cur = cur.orelse[0] if len(cur.orelse) == 1 and isinstance(cur.orelse[0], ast.If) else None
-    chk.expect(tab.get("SPLIT", {}).get("j0") == tab.get("SPLIT", {}).get("j1") == "new_junction_names[0]", "R-C19-3", "SPLIT joins both pipes at one new junction", loc(sp_fn), found=tab.get("SPLIT"))
-    chk.expect(tab.get("BREAK", {}).get("j0") == "new_junction_names[0]" and tab.get("BREAK", {}).get("j1") == "new_junction_names[1]", "R-C19-3",
-               "BREAK ends the two pipes at two different new junctions", loc(sp_fn), found=tab.get("BREAK"))
-    clashes = [n for n in walk(sp_fn) if isinstance(n, ast.If) and any(isinstance(x, ast.Raise) for x in n.body) and (" in node_list" in unparse(n.test) or " in link_list" in unparse(n.test))]
-    chk.expect(len(clashes) == 2 and all(c.lineno < first_mut for c in clashes), "R-C19-3", "name clashes of the new junction(s) and the new pipe are refused before any mutation", loc(sp_fn),
-               found=[unparse(c.test) for c in clashes])
-    isp = [n for n in walk(sp_fn) if isinstance(n, ast.If) and unparse(n.test) == "not isinstance(pipe, Pipe)" and any(isinstance(x, ast.Raise) for x in n.body)]
-    chk.expect(bool(isp) and isp[0].lineno < first_mut, "R-C19-3", "only pipes can be split (refused before mutation)", loc(sp_fn))
-    for pub, flag in (("split_pipe", "SPLIT"), ("break_pipe", "BREAK")):
-        pf = repo.func(LINK, pub)
-        chk.fn(pf)
-        cs = [c for c in calls(pf) if last_attr(c) == "_split_or_break_pipe"]
-        names = params_of(sp_fn)
-        b = bind_args(cs[0], names) if cs else {}
-        chk.expect(bool(cs) and const(b.get("flag")) == flag and unparse(b.get("wn")) == "wn" and unparse(b.get("return_copy")) == "return_copy"
-                   and unparse(b.get("split_at_point")) == "split_at_point" and unparse(b.get("add_pipe_at_end")) == "add_pipe_at_end", "R-C19-3",
-                   "%s forwards its arguments to _split_or_break_pipe with flag %s" % (pub, flag), loc(pf), found={k: unparse(v) for k, v in b.items()})
-        nj = b.get("new_junction_names")
-        chk.expect(isinstance(nj, (ast.List, ast.Tuple)) and len(nj.elts) == (1 if flag == "SPLIT" else 2), "R-C19-3", "%s passes %d new junction name(s)" % (pub, 1 if flag == "SPLIT" else 2), loc(pf))
-    chk.floor("R-C19-3", 2 + 3 + 1 + 4)
 
-    # ---------------------------------------------------------------- R-C19-4 copy isolation
-    skel_init = repo.func(SKEL, "_Skeletonize.__init__")
-    rev = repo.func(LINK, "reverse_link")
-    chk.fn(skel_init, rev)
-    for fn, copyvar in ((sp_fn, "wn2"), (rev, "wn2"), (skel_init, "self.wn")):
-        cp = [n for n in walk(fn) if isinstance(n, ast.If) and unparse(n.test) == "return_copy"]
-        okc = False
-        if cp:
-            b = [a for a in cp[0].body if isinstance(a, ast.Assign) and unparse(a.targets[0]) == copyvar and unparse(a.value) == "copy.deepcopy(wn)"]
-            e = [a for a in cp[0].orelse if isinstance(a, ast.Assign) and unparse(a.targets[0]) == copyvar and unparse(a.value) == "wn"]
-            okc = len(b) == 1 and len(e) == 1
-        chk.expect(okc, "R-C19-4", "%s works on copy.deepcopy(wn) when return_copy is true (else on wn itself)" % fn._qual, loc(fn), found=norm(cp[0]) if cp else None)
-        # the parameter wn is used nowhere else
-        uses = [n for n in walk(fn) if isinstance(n, ast.Name) and n.id == "wn" and isinstance(n.ctx, ast.Load)]
-        other = [u for u in uses if not (cp and cp[0].lineno <= u.lineno <= max(x.lineno for x in ast.walk(cp[0]) if hasattr(x, "lineno")))]
-        chk.expect(not other, "R-C19-4", "%s touches the caller's model only to copy it" % fn._qual, loc(fn, other[0]) if other else loc(fn),
-                   "every other use of the parameter `wn` may mutate (or alias) the input model although return_copy=True promises to leave it untouched",
-                   found=[norm(parent(u)) for u in other[:3]])
-    # all other methods of _Skeletonize never see the original
+# ======================================================================================================================
+# R-C19-4 .. R-C19-7 for skeletonize: path enumeration (sa/symx.py).  Every value is the canonical text of what it was computed
+# from (locals, temporaries and inlined helpers disappear), every path carries the outcomes of the tests it passed and the
+# calls / stores it performed in execution order.
+# ======================================================================================================================
+class SX(SymExec):
+    """SymExec whose single-generator dict comprehension is read like the loop that fills the dict: one abstract iteration."""
+
+    def e_DictComp(self, n, st):
+        if len(n.generators) == 1 and not n.generators[0].ifs and not n.generators[0].is_async:
+            g = n.generators[0]
+            it = self.ev(g.iter, st)
+            st.events.append(("loop", unparse(g.target), self.text(it), getattr(n, "lineno", 0)))
+            sub = st.fork()
+            self.bind_loop_target(g.target, sub)
+            k = self.ev(n.key, sub)
+            v = self.ev(n.value, sub)
+            st.events.extend(sub.events[len(st.events):])
+            return {k if isinstance(k, (str, int)) else self.text(k): v}
+        return Opaque(unparse(n))
+
+
+def canon(txt):
+    try:
+        return ast.unparse(ast.parse(txt, mode="eval").body)
+    except SyntaxError:
+        return txt
+
+
+def holds(conds, *alternatives):
+    """True iff the path conditions force one of the (atom text, truth value) alternatives."""
+    from ._shared import forced
+    for atom, val in alternatives:
+        if forced(canon(atom), conds) is val:
+            return True
+    return False
+
+
+def le_holds(conds, a, b):
+    return holds(conds, ("%s <= %s" % (a, b), True), ("%s >= %s" % (b, a), True), ("%s > %s" % (a, b), False), ("%s < %s" % (b, a), False))
+
+
+def not_in_holds(conds, x, coll):
+    return holds(conds, ("%s not in %s" % (x, coll), True), ("%s in %s" % (x, coll), False))
+
+
+def ev_text(ex, e):
+    return e[1] if e[0] != "store" else "%s = %s" % (e[1], ex.text(e[2]))
+
+
+def junction_loop(events, upto, J):
+    """is J the target of a loop over the junction names of self.wn that is open at event index `upto`?"""
+    e = events[upto]
+    loops = e[4] if len(e) > 4 else ()
+    its = ("self.wn.junction_name_list", "list(self.wn.junction_name_list)", "tuple(self.wn.junction_name_list)", "sorted(self.wn.junction_name_list)")
+    if not loops or loops[0] not in its:
+        return False
+    return any(x[0] == "loop" and x[1] == J and x[2] == loops[0] for x in events[:upto])
+
+
+def skel_rules(repo, chk):
+    import re
     sk = repo.cls(SKEL, "_Skeletonize")
+    skel_init = repo.func(SKEL, "_Skeletonize.__init__")
+    chk.fn(skel_init)
+    A = Agg(chk)
+
+    # ---------------------------------------------------------------- R-C19-4 copy isolation of _Skeletonize
+    bare = re.compile(r"(?<![\w.])wn\b")
+    for rc in (True, False):
+        ex = SX()
+        outs = [o for o in ex.run(skel_init, env={"return_copy": rc}) if o.raised is None]
+        if not outs:
+            raise ExtractError("_Skeletonize.__init__: no path for return_copy=%s" % rc)
+        for o in outs:
+            st_ = [e for e in o.events if e[0] == "store" and e[1] == "self.wn"]
+            val = ex.text(st_[-1][2]) if st_ else None
+            want = ("copy.deepcopy(wn)", "deepcopy(wn)") if rc else ("wn",)
+            A.expect(val in want, "R-C19-4", "_Skeletonize.__init__ works on copy.deepcopy(wn) when return_copy is true (else on wn itself)", loc(skel_init),
+                     expected=want[0], found=val, scen="return_copy=%s, path %s" % (rc, o.label()))
+            if rc:
+                other = []
+                for e in o.events:
+                    if e[0] not in ("call", "store"):
+                        continue
+                    t = ev_text(ex, e)
+                    if bare.search(t.replace("copy.deepcopy(wn)", "COPY").replace("deepcopy(wn)", "COPY")):
+                        other.append(t[:120])
+                A.expect(not other, "R-C19-4", "_Skeletonize.__init__ touches the caller's model only to copy it", loc(skel_init),
+                         "every other use of the parameter `wn` may mutate (or alias) the input model although return_copy=True promises to leave it untouched",
+                         found=other[:3], scen="return_copy=True, path %s" % o.label())
+    A.flush()
     for m in [n for n in sk.body if isinstance(n, ast.FunctionDef) and n.name != "__init__"]:
         bad = [n for n in walk(m) if isinstance(n, ast.Name) and n.id == "wn"]
         chk.expect(not bad, "R-C19-4", "_Skeletonize.%s works on self.wn only" % m.name, loc(SKEL, m))
@@ -337,70 +1662,102 @@ def run(repo, chk):
     cs = [c for c in calls(pubsk) if last_attr(c) == "_Skeletonize"]
     b = bind_args(cs[0], params_of(skel_init)) if cs else {}
     chk.expect(bool(cs) and unparse(b.get("return_copy")) == "return_copy" and unparse(b.get("wn")) == "wn", "R-C19-4", "skeletonize forwards return_copy", loc(pubsk))
-    chk.floor("R-C19-4", 6 + 5)
 
-    # ---------------------------------------------------------------- R-C19-5 / R-C19-6 skeletonize removals
+    # ---------------------------------------------------------------- R-C19-5 / R-C19-6 removals
     n_rl = n_rn = 0
     for m in [n for n in sk.body if isinstance(n, ast.FunctionDef) and n.name in ("branch_trim", "series_pipe_merge", "parallel_pipe_merge")]:
         m._rel = SKEL
         m._qual = "_Skeletonize." + m.name
         chk.fn(m)
-        for c in calls(m):
-            if last_attr(c) == "remove_link" and unparse(c.func.value) == "self.wn":
-                n_rl += 1
-                arg = unparse(c.args[0])
-                # the pipe object of this name
-                pv = [a for a in walk(m) if isinstance(a, ast.Assign) and unparse(a.value) == "self.wn.get_link(%s)" % arg and a.lineno < c.lineno]
-                pvar = unparse(pv[-1].targets[0]) if pv else None
-                guards = [g for g in walk(m) if isinstance(g, ast.If) and g.lineno < c.lineno and any(isinstance(x, ast.Continue) for x in g.body)
-                          and isinstance(g.test, ast.UnaryOp) and isinstance(g.test.op, ast.Not)]
-                okg = False
-                for g in guards:
-                    conj = [unparse(x) for x in conjuncts(g.test.operand)]
-                    if pvar and ("isinstance(%s, Pipe)" % pvar) in conj and ("%s.diameter <= pipe_threshold" % pvar) in conj and ("%s not in self.pipe_to_exclude" % arg) in conj \
-                            and same_loop(g, c):
-                        okg = True
-                chk.expect(okg, "R-C19-5", "%s: remove_link(%s) is reached only for a Pipe with diameter <= threshold that is not excluded" % (m.name, arg), loc(m, c),
-                           "skeletonize must keep pumps, valves, large pipes and every pipe named by a control or by the user", found="pipe variable %s" % pvar)
-            if last_attr(c) == "remove_node" and unparse(c.func.value) == "self.wn":
-                n_rn += 1
-                arg = unparse(c.args[0])
-                lp = enclosing_for(c)
-                okn = lp is not None and unparse(lp.target) == arg and unparse(lp.iter) == "self.wn.junction_name_list"
-                ex = [g for g in walk(lp) if isinstance(g, ast.If) and unparse(g.test) == "%s in self.junc_to_exclude" % arg and any(isinstance(x, ast.Continue) for x in g.body)
-                      and g.lineno < c.lineno] if lp is not None else []
-                chk.expect(okn and bool(ex), "R-C19-5", "%s: remove_node(%s) removes a junction of junction_name_list that is not excluded" % (m.name, arg), loc(m, c))
-                # R-C19-6 demand and map moved to the same retained junction before the removal
-                body = lp.body
-                dl = [f for f in walk(lp) if isinstance(f, ast.For) and unparse(f.iter) == "junc.demand_timeseries_list" and f.lineno < c.lineno]
-                jdef = [a for a in walk(lp) if isinstance(a, ast.Assign) and unparse(a.targets[0]) == "junc" and unparse(a.value) == "self.wn.get_node(%s)" % arg]
-                recv = None
-                if dl:
-                    ap = [x for x in calls(dl[0]) if last_attr(x) == "append" and unparse(x.func.value).endswith(".demand_timeseries_list") and unparse(x.args[0]) == unparse(dl[0].target)]
-                    recv = unparse(ap[0].func.value).rsplit(".", 1)[0] if ap else None
-                mp = [x for x in calls(lp) if last_attr(x) == "extend" and unparse(x.func.value).startswith("self.skeleton_map[") and x.lineno < c.lineno
-                      and unparse(x.args[0]) == "self.skeleton_map[%s]" % arg]
-                mkey = unparse(mp[0].func.value)[len("self.skeleton_map["):-1] if mp else None
-                clr = [a for a in walk(lp) if isinstance(a, ast.Assign) and unparse(a.targets[0]) == "self.skeleton_map[%s]" % arg and unparse(a.value) == "[]" and a.lineno < c.lineno]
-                same = False
-                if recv and mkey:
-                    if mkey == recv + ".name":
-                        same = True
-                    else:
-                        rd = [a for a in walk(lp) if isinstance(a, ast.Assign) and unparse(a.targets[0]) == recv and unparse(a.value) == "self.wn.get_node(%s)" % mkey]
-                        same = bool(rd)
-                chk.expect(bool(dl) and bool(jdef) and recv is not None, "R-C19-6", "%s: every demand entry of the removed junction is appended to a retained junction before remove_node" % m.name, loc(m, c),
-                           "skeletonize conserves the total demand at every time", found="receiver %s" % recv)
-                chk.expect(bool(mp) and bool(clr) and mp[0].lineno < clr[0].lineno, "R-C19-6", "%s: the skeleton map of the removed junction is handed to a retained junction and then emptied, before remove_node" % m.name, loc(m, c))
-                chk.expect(same, "R-C19-6", "%s: demands and map entries go to the same retained junction" % m.name, loc(m, c), found="demands -> %s, map -> %s" % (recv, mkey))
-                # the receiver is a Junction
-                isj = [g for g in walk(lp) if isinstance(g, (ast.If,)) and recv and ("isinstance(%s, Junction)" % recv) in unparse(g.test) and g.lineno < c.lineno]
-                sel = [a for a in walk(lp) if isinstance(a, ast.Assign) and unparse(a.targets[0]) == (recv or "")]
-                okj = bool(isj) or (bool(sel) and all(any(("isinstance(%s, Junction)" % unparse(a.value)) in unparse(g.test) for g in ancestors_if(a)) for a in sel))
-                chk.expect(okj, "R-C19-5", "%s: the junction that receives the demands is a Junction (never a tank or reservoir)" % m.name, loc(m, c), found=recv)
+        thr = params_of(m)[0] if params_of(m) else "pipe_threshold"
+        ex = SX()
+        outs = ex.run(m)
+        # short names of the removal sites: the source text of the argument, in document order
+        src_rl = [unparse(c.args[0]) for c in calls(m) if last_attr(c) == "remove_link" and unparse(c.func.value) == "self.wn" and c.args]
+        src_rn = [unparse(c.args[0]) for c in calls(m) if last_attr(c) == "remove_node" and unparse(c.func.value) == "self.wn" and c.args]
+        seen_rl, seen_rn = [], []
+        for o in outs:
+            conds = dict(o.conds)
+            evs = o.events
+            for i, e in enumerate(evs):
+                if e[0] != "call" or not isinstance(e[2], tuple):
+                    continue
+                name, args, kwargs = e[2]
+                if name == "self.wn.remove_link" and args:
+                    T = ex.text(args[0])
+                    if T not in seen_rl:
+                        seen_rl.append(T)
+                    k = seen_rl.index(T)
+                    short = src_rl[k] if len(src_rl) > k else T[:60]
+                    P = "self.wn.get_link(%s)" % T
+                    P2 = "self.wn.links[%s]" % T
+                    okg = False
+                    for p in (P, P2):
+                        if holds(conds, ("isinstance(%s, Pipe)" % p, True)) and le_holds(conds, p + ".diameter", thr) and not_in_holds(conds, T, "self.pipe_to_exclude"):
+                            okg = True
+                    A.expect(okg, "R-C19-5", "%s: remove_link(%s) is reached only for a Pipe with diameter <= threshold that is not excluded" % (m.name, short), loc(m),
+                             "skeletonize must keep pumps, valves, large pipes and every pipe named by a control or by the user",
+                             expected="isinstance(p, Pipe), p.diameter <= %s, name not in self.pipe_to_exclude for p = %s" % (thr, P[:90]),
+                             found="path conditions: " + "; ".join(("" if v else "NOT ") + k_[:140] for k_, v in o.conds if "Pipe" in k_ or "exclude" in k_ or "diameter" in k_)[:500],
+                             scen=None)
+                if name == "self.wn.remove_node" and args:
+                    J = ex.text(args[0])
+                    if J not in seen_rn:
+                        seen_rn.append(J)
+                    short = src_rn[seen_rn.index(J)] if len(src_rn) > seen_rn.index(J) else J[:60]
+                    okn = junction_loop(evs, i, J) and not_in_holds(conds, J, "self.junc_to_exclude")
+                    A.expect(okn, "R-C19-5", "%s: remove_node(%s) removes a junction of junction_name_list that is not excluded" % (m.name, short), loc(m),
+                             found="loops %s; conditions %s" % (e[4] if len(e) > 4 else (), [k_ for k_ in conds if "exclude" in k_][:3]))
+                    # R-C19-6: what happened to the junction's demands and map entries BEFORE this call on this path
+                    jobjs = ("self.wn.get_node(%s)" % J, "self.wn.nodes[%s]" % J)
+                    jlists = tuple(x + ".demand_timeseries_list" for x in jobjs)
+                    recv = None
+                    for q, x in enumerate(evs[:i]):
+                        if x[0] != "call":
+                            continue
+                        mt = re.match(r"^(.*)\.demand_timeseries_list\.(append|extend)\((.*)\)$", x[1], re.S)
+                        if not mt or mt.group(1) in jobjs:
+                            continue
+                        if mt.group(2) == "extend" and mt.group(3) in jlists:
+                            recv = mt.group(1)
+                        elif mt.group(2) == "append" and len(x) > 4 and x[4] and x[4][-1] in jlists:
+                            tg = [y[1] for y in evs[:q] if y[0] == "loop" and y[2] == x[4][-1]]
+                            if tg and mt.group(3) == tg[-1]:
+                                recv = mt.group(1)
+                    A.expect(recv is not None, "R-C19-6", "%s: every demand entry of the removed junction is appended to a retained junction before remove_node" % m.name, loc(m),
+                             "skeletonize conserves the total demand at every time", found="receiver %s" % recv, scen=o.label()[:300])
+                    src_map = "self.skeleton_map[%s]" % J
+                    mkey = None
+                    moved_at = cleared_at = None
+                    for q, x in enumerate(evs[:i]):
+                        if x[0] == "call":
+                            mt = re.match(r"^self\.skeleton_map\[(.*)\]\.extend\((.*)\)$", x[1], re.S)
+                            if mt and mt.group(2) == src_map and mt.group(1) != J:
+                                mkey, moved_at = mt.group(1), q
+                            if x[1] == src_map + ".clear()" and moved_at is not None:
+                                cleared_at = q
+                        if x[0] == "store" and x[1] == src_map and x[2] == [] and moved_at is not None:
+                            cleared_at = q
+                    A.expect(moved_at is not None and cleared_at is not None and moved_at < cleared_at, "R-C19-6",
+                             "%s: the skeleton map of the removed junction is handed to a retained junction and then emptied, before remove_node" % m.name, loc(m),
+                             found="moved to %s, emptied: %s" % (mkey, cleared_at is not None), scen=o.label()[:300])
+                    same = bool(recv and mkey) and (mkey == recv + ".name" or mkey == recv + "._name" or recv in ("self.wn.get_node(%s)" % mkey, "self.wn.nodes[%s]" % mkey))
+                    A.expect(same, "R-C19-6", "%s: demands and map entries go to the same retained junction" % m.name, loc(m), found="demands -> %s, map -> %s" % (recv, mkey), scen=o.label()[:300])
+                    A.expect(recv is not None and holds(conds, ("isinstance(%s, Junction)" % recv, True)), "R-C19-5",
+                             "%s: the junction that receives the demands is a Junction (never a tank or reservoir)" % m.name, loc(m), found=recv, scen=o.label()[:300])
+        if len(seen_rl) != len(src_rl) or len(seen_rn) != len(src_rn):
+            raise ExtractError("_Skeletonize.%s: %d/%d remove_link and %d/%d remove_node sites lie on an enumerated path" % (m.name, len(seen_rl), len(src_rl), len(seen_rn), len(src_rn)))
+        n_rl += len(seen_rl)
+        n_rn += len(seen_rn)
+        A.flush()
     if n_rl < 5 or n_rn < 2:
         chk.error("R-C19-5: expected at least 5 remove_link and 2 remove_node sites in _Skeletonize, found %d / %d" % (n_rl, n_rn))
-    # exclusion lists and initial map (small dataflow: which names feed self.<list>)
+
+
+def init_rules(repo, chk):
+    skel_init = repo.func(SKEL, "_Skeletonize.__init__")
+
+    # exclusion lists (small dataflow: which names feed self.<list>)
     def feeds(attr):
         src = set()
         found = False
@@ -442,7 +1799,6 @@ def run(repo, chk):
                 if op == "add_usage" and reg == "_node_reg" and tag and tag.startswith("'"):
                     node_users.add(tag.strip("'"))
     chk.sample({"rule": "R-C19-5", "non_link_users_of_nodes": sorted(node_users)})
-    fj = feeds("junc_to_exclude")
     txt_feed = " ".join(unparse(n) for n in walk(skel_init) if isinstance(n, ast.Call) and isinstance(n.func, ast.Attribute) and n.func.attr in ("extend", "append")
                         and unparse(n.func.value) == "self.junc_to_exclude")
     for u in sorted(node_users):
@@ -450,85 +1806,106 @@ def run(repo, chk):
         chk.expect(acc is not None and acc in txt_feed, "R-C19-5", "junctions used by a %s are excluded from removal" % u, loc(skel_init),
                    "remove_node(force=True) only skips the control check: the registry still refuses a node with a usage record, after demands and pipes were already moved "
                    "(skeletonize of Net2 fails half way with RuntimeError)", expected="junc_to_exclude fed from self.wn.%s" % (acc or "?"), found=txt_feed[:200])
-    mapinit = [f for f in walk(skel_init) if isinstance(f, ast.For) and unparse(f.iter) in ("self.wn.node_name_list", "self.wn.nodes()")]
-    okm = False
-    mvar = None
-    if mapinit:
-        tv = unparse(mapinit[0].target.elts[0] if isinstance(mapinit[0].target, ast.Tuple) else mapinit[0].target)
-        for a in walk(mapinit[0]):
-            if isinstance(a, ast.Assign) and isinstance(a.targets[0], ast.Subscript) and unparse(a.targets[0].slice) == tv and unparse(a.value) == "[%s]" % tv:
-                okm = True
-                mvar = unparse(a.targets[0].value)
-    chk.expect(okm and any(isinstance(a, ast.Assign) and unparse(a.targets[0]) == "self.skeleton_map" and unparse(a.value) == mvar for a in walk(skel_init)) or
-               (okm and mvar == "self.skeleton_map"), "R-C19-6", "the initial skeleton map is {n: [n]} for every node", loc(skel_init))
-    chk.floor("R-C19-5", 5 + 2 + 2 + 2)
-    chk.floor("R-C19-6", 2 * 3 + 1)
 
-    # ---------------------------------------------------------------- R-C19-7 duration restored
-    sv = [a for a in skel_init.body if isinstance(a, ast.Assign) and unparse(a.value) == "self.wn.options.time.duration"]
-    st = [a for a in skel_init.body if isinstance(a, ast.Assign) and unparse(a.targets[0]) == "self.wn.options.time.duration"]
-    okd = len(sv) == 1 and len(st) == 2 and const(st[0].value) == 0 and unparse(st[1].value) == unparse(sv[0].targets[0]) and sv[0].lineno < st[0].lineno < st[1].lineno
-    run_ = [c for c in calls(skel_init) if last_attr(c) == "run_sim"]
-    okd = okd and bool(run_) and st[0].lineno < run_[0].lineno < st[1].lineno
+    # R-C19-6 the initial map: on every path the value stored in self.skeleton_map is {n: [n]} built in one pass over all node names (loop or comprehension)
+    ex = SX()
+    outs = [o for o in ex.run(skel_init) if o.raised is None]
+    okm, found = bool(outs), None
+    for o in outs:
+        st_ = [e for e in o.events if e[0] == "store" and e[1] == "self.skeleton_map"]
+        v = st_[-1][2] if st_ else None
+        good = False
+        if isinstance(v, dict) and len(v) == 1:
+            (k, val), = v.items()
+            if isinstance(val, (list, tuple)) and len(val) == 1 and isinstance(val[0], Opaque) and val[0].text == k:
+                for e in o.events:
+                    if e[0] != "loop":
+                        continue
+                    tg, it = e[1], e[2]
+                    names_it = it in ("self.wn.node_name_list", "self.wn.nodes", "self.wn.nodes.keys()", "list(self.wn.node_name_list)", "self.wn._node_reg", "self.wn._node_reg.keys()")
+                    pairs_it = it in ("self.wn.nodes()", "self.wn.nodes.items()", "self.wn._node_reg.items()")
+                    if (names_it and tg == k) or (pairs_it and re_first(tg) == k):
+                        good = True
+        if not good:
+            okm, found = False, "%s on path %s" % (ex.text(v) if v is not None else None, o.label()[:200])
+    chk.expect(okm, "R-C19-6", "the initial skeleton map is {n: [n]} for every node", loc(skel_init), expected="{n: [n]} for n in self.wn.node_name_list", found=found)
+
+    # R-C19-7 duration restored (top-level statements of __init__, in order)
+    body = list(skel_init.body)
+    sv = [i for i, a in enumerate(body) if isinstance(a, ast.Assign) and unparse(a.value) == "self.wn.options.time.duration" and isinstance(a.targets[0], ast.Name)]
+    st = [i for i, a in enumerate(body) if isinstance(a, ast.Assign) and unparse(a.targets[0]) == "self.wn.options.time.duration"]
+    run_ = [i for i, a in enumerate(body) if any(last_attr(c) == "run_sim" for c in calls(a))]
+    okd = len(sv) == 1 and len(st) == 2 and const(body[st[0]].value) == 0 and unparse(body[st[1]].value) == unparse(body[sv[0]].targets[0]) and sv[0] < st[0] < st[1]
+    okd = okd and bool(run_) and st[0] < run_[0] < st[1]
+    if okd:
+        saved = unparse(body[sv[0]].targets[0])
+        okd = not any(isinstance(x, ast.Name) and x.id == saved and isinstance(x.ctx, ast.Store) for a in body[sv[0] + 1:st[1]] for x in ast.walk(a))
     chk.expect(okd, "R-C19-7", "_Skeletonize.__init__ saves the duration, sets 0 for the internal simulation and restores it afterwards (top-level statements)", loc(skel_init),
-               found=[norm(a) for a in sv + st])
+               found=[norm(body[i]) for i in sv + st])
 
 
-def conjuncts(e):
-    """top-level conjuncts of a condition (nested `and` flattened; anything else is one atom)."""
-    if isinstance(e, ast.BoolOp) and isinstance(e.op, ast.And):
-        out = []
-        for v in e.values:
-            out += conjuncts(v)
-        return out
-    return [e]
+def re_first(tgt):
+    """first element of a tuple loop target text '(a, b)' / 'a, b'"""
+    t = tgt.strip()
+    if t.startswith("(") and t.endswith(")"):
+        t = t[1:-1]
+    return t.split(",")[0].strip() if "," in t else None
 
 
-def flag_sensitive_status(fn, status_arg):
-    """True if the status argument of the new pipe depends on `flag` (e.g. Open for SPLIT); False if it is the same for SPLIT and BREAK."""
-    names = {n.id for n in ast.walk(status_arg) if isinstance(n, ast.Name)}
-    if "flag" in names:
-        return True
-    for a in walk(fn):
-        if isinstance(a, ast.Assign) and isinstance(a.targets[0], ast.Name) and a.targets[0].id in names:
-            g = parent(a)
-            while g is not None and g is not fn:
-                if isinstance(g, ast.If) and "flag" in unparse(g.test):
-                    return True
-                g = parent(g)
-    return False
+def params_of(fn):
+    return [a.arg for a in fn.args.args if a.arg != "self"]
 
 
-def enclosing_for(n):
-    q = parent(n)
-    while q is not None and not isinstance(q, ast.For):
-        q = parent(q)
-    # the outermost loop over junction names
-    top = q
-    while q is not None:
-        q = parent(q)
-        if isinstance(q, ast.For):
-            top = q
-    return top
-
-
-def same_loop(a, b):
-    return enclosing_for(a) is enclosing_for(b)
-
-
-def ancestors_if(n):
-    out = []
-    q = parent(n)
-    while q is not None:
-        if isinstance(q, ast.If):
-            out.append(q)
-        q = parent(q)
+def bind_args(call, names):
+    out = {}
+    for i, a in enumerate(call.args):
+        if i < len(names):
+            out[names[i]] = a
+    for k in call.keywords:
+        if k.arg:
+            out[k.arg] = k.value
     return out
 
 
+EXPLANATION = (
+    "Static analysis of wntr/morph/link.py (split_pipe, break_pipe, _split_or_break_pipe, reverse_link) and wntr/morph/skel.py::_Skeletonize. The functions of link.py are "
+    "INTERPRETED on their AST by the checker's own evaluator over a mock model (nothing of the repository is imported or run): numbers carry a sympy expression next to a "
+    "sample value, so that every result is compared as an identity in the split fraction s, the length, the elevations and the coordinates, and the polyline geometry is "
+    "evaluated on a grid of fractions along polylines with repeated, zero-length and end-point vertices. (R-C19-1) new-pipe length + retained length = original length, the "
+    "part that keeps the start node gets L*s, elevation and coordinates are the linear interpolation at s (reservoir ends take the other end's elevation; with vertices the "
+    "junction lies on the crossing segment and the vertices are partitioned in order), every admissible call completes, and 0 <= s <= 1 is enforced before any mutation; "
+    "(R-C19-2) the new pipe receives the old pipe's diameter, roughness and base status through add_pipe's signature and a constant False check valve; (R-C19-3) the old pipe "
+    "is re-wired through the usage-maintaining setters, SPLIT uses one junction for both pipes and BREAK two, name clashes and non-pipes are refused before mutation, nothing "
+    "else changes; (R-C19-4) with return_copy every mutation goes to the deep copy and no object is shared, the caller's model is only read; path enumeration of "
+    "_Skeletonize: (R-C19-5) every remove_link is reached only under isinstance Pipe, diameter <= threshold and the exclusion list for that very pipe, every remove_node "
+    "removes a junction from junction_name_list that is not excluded, exclusion lists contain the requires() of every control, and the junction that receives demands is a "
+    "Junction; (R-C19-6) demand entries and the skeleton map of the removed junction are moved to one and the same retained junction before remove_node, the initial map is "
+    "{n: [n]}; (R-C19-7) the duration changed for the internal simulation is restored. Decides these clauses, not hydraulic equivalence.")
+RULE_TEXT = "one instance = one promised fact (formula, argument, refusal, mutation or removal site), discharged iff it holds in every evaluated scenario / on every enumerated path; distinct = distinct constructs"
+ASSUMPTIONS = [
+    "copy.deepcopy of a WaterNetworkModel shares nothing mutable with the original (pickling hooks are checked under C10)",
+    "demand entries are moved as objects (pattern registry usage records of the retained junction are not re-registered; inventoried, outside the statement)",
+    "WaterNetworkModel.get_link / get_node / nodes() / links() / add_junction / add_pipe behave as documented (lookup by name, creation under the given name); add_pipe and add_junction "
+    "arguments are bound through their signatures in wntr/network/model.py",
+]
+
+
+def run(repo, chk):
+    link_rules(repo, chk)
+    chk.floor("R-C19-1", 18)
+    chk.floor("R-C19-2", 10)
+    chk.floor("R-C19-2b", 2)
+    chk.floor("R-C19-3", 10)
+    skel_rules(repo, chk)
+    chk.floor("R-C19-4", 7 + 2 + 5 + 1)
+    init_rules(repo, chk)
+    chk.floor("R-C19-5", 5 + 2 + 2 + 2 + 2)
+    chk.floor("R-C19-6", 2 * 3 + 1)
+
+
 WITNESSES = [
-    dict(name="new-pipe-gets-check-valve", file=LINK, old="                     original_length * (1 - split_at_point), pipe.diameter,\n                     pipe.roughness, pipe.minor_loss, pipe.status, False)",
-         new="                     original_length * (1 - split_at_point), pipe.diameter,\n                     pipe.roughness, pipe.minor_loss, pipe.status, pipe.check_valve)", rule="R-C19-2"),
+    dict(name="new-pipe-gets-check-valve", file=LINK, old="                     original_length * (1 - split_at_point), pipe.diameter,\n                     pipe.roughness, pipe.minor_loss, pipe.initial_status, False)",
+         new="                     original_length * (1 - split_at_point), pipe.diameter,\n                     pipe.roughness, pipe.minor_loss, pipe.initial_status, pipe.check_valve)", rule="R-C19-2"),
     dict(name="lengths-swapped-at-start", file=LINK, old="        pipe.length = original_length * (1 - split_at_point)\n", new="        pipe.length = original_length * split_at_point\n", rule="R-C19-1"),
     dict(name="coordinates-undefined-at-zero", file=LINK, old="        junction_coordinates = pipe.start_node.coordinates\n", new="", rule="R-C19-1"),
     dict(name="new-pipe-gets-simulation-status", file=LINK, old="                     original_length * (1 - split_at_point), pipe.diameter,\n                     pipe.roughness, pipe.minor_loss, pipe.initial_status, False)",
@@ -548,4 +1925,96 @@ WITNESSES = [
     dict(name="demand-moved-after-removal-dropped", file=SKEL, old="            for demand in junc.demand_timeseries_list:\n                neigh_junc.demand_timeseries_list.append(demand)\n", new="", rule="R-C19-6"),
     dict(name="map-to-other-junction", file=SKEL, old="            self.skeleton_map[closest_junc.name].extend(self.skeleton_map[junc_name])", new="            self.skeleton_map[neigh_junc_name0].extend(self.skeleton_map[junc_name])", rule="R-C19-6"),
     dict(name="duration-not-restored", file=SKEL, old="        self.wn.options.time.duration = duration\n", new="", rule="R-C19-7"),
+    dict(name="crossing-guard-open-at-the-wrong-end", file=LINK, old="            if segment['subtotal'] + segment['length'] >= split_length > segment['subtotal']:",
+         new="            if segment['subtotal'] + segment['length'] > split_length >= segment['subtotal']:", rule="R-C19-1"),
+    dict(name="split-length-from-pipe-length", file=LINK, old="        split_length = length * split_at_point", new="        split_length = pipe.length * split_at_point", rule="R-C19-1"),
+    dict(name="vertex-order-reversed", file=LINK, old="        pipe.vertices = first_vertices\n", new="        pipe.vertices = first_vertices[::-1]\n", rule="R-C19-1"),
+    dict(name="range-check-after-junction", file=LINK, old="    if split_at_point < 0 or split_at_point > 1:\n        raise ValueError('split_at_point must be between 0 and 1')\n", new="",
+         also=[("    original_length = pipe.length\n", "    original_length = pipe.length\n    if split_at_point < 0 or split_at_point > 1:\n        raise ValueError('split_at_point must be between 0 and 1')\n")],
+         rule="R-C19-1"),
+    dict(name="rewire-through-private-field", file=LINK, old="        pipe.end_node = wn2.get_node(j0)", new="        pipe._end_node = wn2.get_node(j0)", rule="R-C19-3"),
+    dict(name="returns-the-argument", file=LINK, old="                    pipe will not have a check valve.')\n\n    return wn2", new="                    pipe will not have a check valve.')\n\n    return wn", rule="R-C19-4"),
+    dict(name="node-of-the-original-wired-into-the-copy", file=LINK, old="        pipe.end_node = wn2.get_node(j0)", new="        pipe.end_node = wn2.get_node(j0)\n        pipe.start_node = wn.get_node(start_node.name)",
+         rule="R-C19-4"),
+    dict(name="skeleton-never-copies", file=SKEL, old="            self.wn = copy.deepcopy(wn)\n", new="            self.wn = wn\n", rule="R-C19-4"),
+    dict(name="trim-ignores-junction-exclusion", file=SKEL, old="            if junc_name in self.junc_to_exclude:\n                continue\n            neighbors = list(nx.neighbors(self.G,junc_name))\n            if len(neighbors) > 1:",
+         new="            neighbors = list(nx.neighbors(self.G,junc_name))\n            if len(neighbors) > 1:", rule="R-C19-5"),
+    dict(name="receiver-may-be-a-tank", file=SKEL, old="            if not (isinstance(neigh_junc, Junction)):\n                continue\n", new="", rule="R-C19-5"),
+    dict(name="map-not-emptied", file=SKEL, old="            self.skeleton_map[neigh_junc_name].extend(self.skeleton_map[junc_name])\n            self.skeleton_map[junc_name] = []\n",
+         new="            self.skeleton_map[neigh_junc_name].extend(self.skeleton_map[junc_name])\n", rule="R-C19-6"),
+    dict(name="node-removed-before-demands-move", file=SKEL, old="            self.wn.remove_link(pipe_name, force=True)\n            self.wn.remove_node(junc_name, force=True)\n",
+         new="            self.wn.remove_link(pipe_name, force=True)\n",
+         also=[("            junc = self.wn.get_node(junc_name)\n            for demand in junc.demand_timeseries_list:\n                neigh_junc.demand_timeseries_list.append(demand)\n",
+                "            junc = self.wn.get_node(junc_name)\n            self.wn.remove_node(junc_name, force=True)\n            for demand in junc.demand_timeseries_list:\n"
+                "                neigh_junc.demand_timeseries_list.append(demand)\n")], rule="R-C19-6"),
+    dict(name="initial-map-skips-tanks", file=SKEL, old="        for node_name in self.wn.node_name_list:\n            skel_map[node_name] = [node_name]",
+         new="        for node_name in self.wn.junction_name_list:\n            skel_map[node_name] = [node_name]", rule="R-C19-6"),
+    # ---- behaviour-preserving rewrites of the current source: every one of them must leave all rules quiet
+    dict(name="silent-elevation-helper-with-early-returns", file=LINK, silent=True,
+         old="    if isinstance(start_node, Reservoir):\n        junction_elevation = end_node.elevation\n    elif isinstance(end_node, Reservoir):\n        junction_elevation = start_node.elevation\n"
+             "    else:\n        e0 = start_node.elevation\n        de = end_node.elevation - e0\n        junction_elevation = e0 + de * split_at_point\n",
+         new="    junction_elevation = _interpolate_elevation(start_node, end_node,\n                                                split_at_point)\n",
+         also=[("def _split_or_break_pipe(wn,", "def _interpolate_elevation(start_node, end_node, split_at_point):\n    if isinstance(start_node, Reservoir):\n        return end_node.elevation\n"
+                "    if isinstance(end_node, Reservoir):\n        return start_node.elevation\n    e0 = start_node.elevation\n    de = end_node.elevation - e0\n    return e0 + de * split_at_point\n\n\n"
+                "def _split_or_break_pipe(wn,")]),
+    dict(name="silent-placement-branches-deduplicated", file=LINK, silent=True,
+         old="    if add_pipe_at_end:\n        pipe.end_node = wn2.get_node(j0)\n        # add new pipe and change original length\n        wn2.add_pipe(new_pipe_name, j1, end_node.name,\n"
+             "                     original_length * (1 - split_at_point), pipe.diameter,\n                     pipe.roughness, pipe.minor_loss, pipe.initial_status, False)\n"
+             "        pipe.length = original_length * split_at_point\n        pipe.vertices = first_vertices\n        new_pipe = wn2.get_link(new_pipe_name)\n        new_pipe.vertices = last_vertices\n"
+             "    else:  # add pipe at start\n        pipe.start_node = wn2.get_node(j0)\n        # add new pipe and change original length\n        wn2.add_pipe(new_pipe_name, start_node.name, j1,\n"
+             "                     original_length * split_at_point, pipe.diameter,\n                     pipe.roughness, pipe.minor_loss, pipe.initial_status, False)\n"
+             "        pipe.length = original_length * (1 - split_at_point)\n        pipe.vertices = last_vertices\n        new_pipe = wn2.get_link(new_pipe_name)\n        new_pipe.vertices = first_vertices\n",
+         new="    first_length = original_length * split_at_point\n    last_length = original_length * (1 - split_at_point)\n    if add_pipe_at_end:\n        pipe.end_node = wn2.get_node(j0)\n"
+             "        ends = (j1, end_node.name)\n        new_length, new_vertices = last_length, last_vertices\n        kept_length, kept_vertices = first_length, first_vertices\n"
+             "    else:\n        pipe.start_node = wn2.get_node(j0)\n        ends = (start_node.name, j1)\n        new_length, new_vertices = first_length, first_vertices\n"
+             "        kept_length, kept_vertices = last_length, last_vertices\n    wn2.add_pipe(new_pipe_name, *ends, length=new_length, diameter=pipe.diameter,\n"
+             "                 roughness=pipe.roughness, minor_loss=pipe.minor_loss,\n                 initial_status=pipe.initial_status, check_valve=False)\n    pipe.length = kept_length\n"
+             "    pipe.vertices = kept_vertices\n    wn2.get_link(new_pipe_name).vertices = new_vertices\n"),
+    dict(name="silent-segments-as-namedtuples-and-comprehensions", file=LINK, silent=True,
+         old="        for i in range(len(pipe_vertices) - 1):\n            start_pos = pipe_vertices[i]\n            end_pos = pipe_vertices[i + 1]\n",
+         new="        for start_pos, end_pos in zip(pipe_vertices[:-1], pipe_vertices[1:]):\n",
+         also=[("import copy\n", "import copy\nimport collections\n"),
+               ("def _split_or_break_pipe(wn,", "_Segment = collections.namedtuple('_Segment', ['start_pos', 'end_pos', 'length', 'subtotal'])\n\n\ndef _split_or_break_pipe(wn,"),
+               ("            segments.append({'start_pos': start_pos,\n                             'end_pos': end_pos,\n                             'length': segment_length,\n"
+                "                             'subtotal': subtotal})", "            segments.append(_Segment(start_pos, end_pos, segment_length, subtotal))"),
+               ("        length = last_segment['subtotal'] + last_segment['length']", "        length = last_segment.subtotal + last_segment.length"),
+               ("        for segment in segments[1:]:\n            if segment['subtotal'] < split_length:\n                first_vertices.append(segment['start_pos'])\n            else:\n"
+                "                last_vertices.append(segment['start_pos'])\n",
+                "        first_vertices = [seg.start_pos for seg in segments[1:] if seg.subtotal < split_length]\n"
+                "        last_vertices = [seg.start_pos for seg in segments[1:] if not seg.subtotal < split_length]\n"),
+               ("            if segment['subtotal'] + segment['length'] >= split_length > segment['subtotal']:\n                split_at = ((split_length - segment['subtotal'])\n"
+                "                            / segment['length'])\n                x0 = segment['start_pos'][0]\n                dx = segment['end_pos'][0] - x0\n"
+                "                y0 = segment['start_pos'][1]\n                dy = segment['end_pos'][1] - y0\n",
+                "            if segment.subtotal < split_length <= segment.subtotal + segment.length:\n                split_at = (split_length - segment.subtotal) / segment.length\n"
+                "                (x0, y0), (x1, y1) = segment.start_pos, segment.end_pos\n                dx, dy = x1 - x0, y1 - y0\n")]),
+    dict(name="silent-range-check-chained-comparison", file=LINK, silent=True, old="    if split_at_point < 0 or split_at_point > 1:", new="    if not 0 <= split_at_point <= 1:"),
+    dict(name="silent-copy-as-conditional-expression", file=LINK, silent=True,
+         old="    if return_copy:  # Get a copy of the WaterNetworkModel\n        wn2 = copy.deepcopy(wn)\n    else:\n        wn2 = wn\n\n    pipe = wn2.get_link(pipe_name_to_split)",
+         new="    wn2 = wn if return_copy == False else copy.deepcopy(wn)\n    pipe = wn2.get_link(pipe_name_to_split)"),
+    dict(name="silent-flag-dispatch-table", file=LINK, silent=True,
+         old="    if flag == 'BREAK':\n        j0 = new_junction_names[0]\n        j1 = new_junction_names[1]\n    elif flag == 'SPLIT':\n        j0 = new_junction_names[0]\n        j1 = new_junction_names[0]\n",
+         new="    j0 = new_junction_names[0]\n    j1 = new_junction_names[{'BREAK': 1, 'SPLIT': 0}[flag]]\n"),
+    dict(name="silent-absorb-junction-method-extracted", file=SKEL, silent=True,
+         old="            self.skeleton_map[neigh_junc_name].extend(self.skeleton_map[junc_name])\n            self.skeleton_map[junc_name] = []\n",
+         new="            self._absorb_junction(junc_name, neigh_junc)\n",
+         also=[("            junc = self.wn.get_node(junc_name)\n            for demand in junc.demand_timeseries_list:\n                neigh_junc.demand_timeseries_list.append(demand)\n"
+                "            junc.demand_timeseries_list.clear()\n", ""),
+               ("    def _select_dominant_pipe(self, pipe0, pipe1):", "    def _absorb_junction(self, junc_name, retained_junc):\n"
+                "        self.skeleton_map[retained_junc.name].extend(self.skeleton_map[junc_name])\n        self.skeleton_map[junc_name] = []\n        junc = self.wn.get_node(junc_name)\n"
+                "        for demand in junc.demand_timeseries_list:\n            retained_junc.demand_timeseries_list.append(demand)\n        junc.demand_timeseries_list.clear()\n\n"
+                "    def _select_dominant_pipe(self, pipe0, pipe1):")]),
+    dict(name="silent-map-as-dict-comprehension-fstring-log", file=SKEL, silent=True,
+         old="        skel_map = {}\n        for node_name in self.wn.node_name_list:\n            skel_map[node_name] = [node_name]\n        self.skeleton_map = skel_map\n",
+         new="        self.skeleton_map = {node_name: [node_name]\n                             for node_name in self.wn.node_name_list}\n",
+         also=[("            logger.info('Branch trim: '+ str(junc_name) + str(neighbors))", "            logger.info(f'Branch trim: {junc_name}{neighbors}')"),
+               ("            iteration = iteration + 1", "            iteration += 1")]),
+    dict(name="silent-trim-guard-de-morgan", file=SKEL, silent=True,
+         old="            if not ((isinstance(pipe, Pipe)) and \\\n                (pipe.diameter <= pipe_threshold) and \\\n                pipe_name not in self.pipe_to_exclude):",
+         new="            if not isinstance(pipe, Pipe) or pipe.diameter > pipe_threshold or \\\n                pipe_name in self.pipe_to_exclude:"),
+    dict(name="silent-skeleton-copy-as-conditional-expression", file=SKEL, silent=True,
+         old="        if return_copy:\n            # Get a copy of the WaterNetworkModel\n            self.wn = copy.deepcopy(wn)\n        else:\n            self.wn = wn\n",
+         new="        self.wn = copy.deepcopy(wn) if return_copy else wn\n"),
+    dict(name="silent-demand-move-by-extend", file=SKEL, silent=True,
+         old="            for demand in junc.demand_timeseries_list:\n                closest_junc.demand_timeseries_list.append(demand)\n",
+         new="            closest_junc.demand_timeseries_list.extend(junc.demand_timeseries_list)\n"),
 ]
